@@ -28,9 +28,13 @@ EXPLANATION = (
     "data only when disconnecting without producer; writeSequence and the buffering subclass route through write, and the "
     "aggregator flushes before loseConnection, re-arms its timer and keeps buffer/size coupled; (d) dataReceived re-tests "
     "the handshake after advancing it, un-buffers and then drains the receive BIO; producers are paused on buffering and "
-    "resumed on drain. Not decided: interleavings with OpenSSL's internal state, value-level equality of streams."
+    "resumed on drain; (e) a finite model over (handshakeDone, writes buffered, producer, disconnecting), with transitions read off the guards of "
+    "loseConnection / unregisterProducer / _unbufferPendingWrites / dataReceived / _checkHandshakeStatus, shows that every state a postponed "
+    "loseConnection() can leave behind still reaches abortConnection() or a post-handshake _shutdownTLS(). Not decided: interleavings with OpenSSL's internal state, value-level equality of streams."
 )
 ASSUMPTIONS = [
+    "SSL_shutdown before the handshake has completed has no effect (error swallowed by _shutdownTLS); guaranteed events: a registered producer eventually "
+    "unregisters, a pending handshake eventually completes, data arrives while writes are blocked on a read",
     "the underlying transport delivers connectionLost once (C15); OpenSSL raises WantReadError consistently while a handshake is pending",
     "_flushSendBIO/_write do not change disconnecting/_producer; only _write -> _bufferedWrite appends to _appSendBuffer",
 ]
@@ -55,540 +59,734 @@ def _base_calls(g, method):
             if src(c.func) in (f"ProtocolWrapper.{method}", f"super().{method}", f"policies.ProtocolWrapper.{method}")]
 
 
+# ---- liveness of a postponed close: finite model over (handshakeDone, writes buffered, producer, disconnecting) -------------------
+
+def _reaches(ctx, g, facts, nodes, srcs, what):
+    """Under fully specified state facts: is one of ``nodes`` executed?  (may == must, else the guard reads something
+    outside the abstract state and the model is not applicable: AnalysisError, caught by the section.)"""
+    nodes = list(nodes)
+    if not nodes:
+        return False
+    if not (reach_under(g, facts, srcs=srcs) & set(nodes)):
+        return False
+    ctx.need(_must_pass_under(g, facts, nodes, srcs=srcs) is None,
+             f"{what}: whether the action is taken is not decided by (handshakeDone, buffered, producer, disconnecting)")
+    return True
+
+
+def _liveness(ctx):
+    """Every state with disconnecting=True that loseConnection() can leave behind must still be able to reach an *effective*
+    close (abortConnection(), or _shutdownTLS() once the handshake is done - SSL_shutdown during the handshake fails and is
+    swallowed) through the events that are guaranteed to happen: the producer unregisters, the handshake completes, buffered
+    writes drain on incoming data.  Transitions are read off the guards of the five functions involved."""
+    B_ = lambda b: NONNULL if b else ()          # noqa: E731
+    P_ = lambda p: NONNULL if p else None        # noqa: E731
+    fl = ctx.func(T, "TLSMemoryBIOProtocol.loseConnection")
+    gl = ctx.cfg(fl)
+    fu = ctx.func(T, "TLSMemoryBIOProtocol.unregisterProducer")
+    gu = ctx.cfg(fu)
+    fb = ctx.func(T, "TLSMemoryBIOProtocol._unbufferPendingWrites")
+    gb = ctx.cfg(fb)
+    fdr = ctx.func(T, "TLSMemoryBIOProtocol.dataReceived")
+    gd = ctx.cfg(fdr)
+    fh = ctx.func(T, "TLSMemoryBIOProtocol._checkHandshakeStatus")
+    gh = ctx.cfg(fh)
+    loops = [n for n in gb.nodes if n.kind == "for" and gb.reachable(n.id)]
+    ctx.need(len(loops) == 1, "the re-write loop of _unbufferPendingWrites")
+    tail = succ_of(gb, loops[0].id, "done")
+    hs_calls = call_nodes(gd, "self._checkHandshakeStatus")
+    ctx.need(hs_calls, "self._checkHandshakeStatus() in dataReceived")
+    after_hs = [s for h in hs_calls for s in succ_of(gd, h, None)]
+    done_sets = self_assigns(gh, "_handshakeDone", lambda v: const_value_is(v, lambda x: x is True))
+    ctx.need(done_sets, "_handshakeDone = True in _checkHandshakeStatus")
+    after_done = [s for d in done_sets for s in succ_of(gh, d, None)]
+
+    def acts(g, facts, srcs, what):
+        return {"abort": _reaches(ctx, g, facts, call_nodes(g, "self.abortConnection", "self.transport.abortConnection"), srcs, what),
+                "shutdown": _reaches(ctx, g, facts, call_nodes(g, "self._shutdownTLS"), srcs, what),
+                "unbuffer": _reaches(ctx, g, facts, call_nodes(g, "self._unbufferPendingWrites"), srcs, what)}
+
+    def state_facts(H, B, P, D):
+        return {"self._handshakeDone": H, "self._appSendBuffer": B_(B), "self._producer": P_(P), "self.disconnecting": D,
+                "self.connected": True, "self._aborted": False, "self._lostTLSConnection": False}
+
+    def closes(a, H):
+        return a["abort"] or (a["shutdown"] and H)
+
+    def unbuffer_tail(P, D):
+        f = state_facts(True, False, P, D)
+        return acts(gb, f, tail, "_unbufferPendingWrites tail")
+
+    CLOSING = "closing"
+
+    def ev_lose(H, B, P):
+        a = acts(gl, state_facts(H, B, P, False), None, "loseConnection")
+        note = "" if closes(a, H) or not a["shutdown"] else " [_shutdownTLS() during the handshake: no effect]"
+        return (CLOSING if closes(a, H) else (H, B, P, True)), "loseConnection()" + note
+
+    def events(s):
+        H, B, P, D = s
+        out = []
+        if P:
+            f = state_facts(H, B, True, D)
+            f["isinstance(self._producer._producer, _PullToPush)"] = False
+            a = acts(gu, f, None, "unregisterProducer")
+            note = "" if closes(a, H) or not a["shutdown"] else " [_shutdownTLS() during the handshake: no effect]"
+            out.append((CLOSING if closes(a, H) else (H, B, False, D), "unregisterProducer()" + note))
+            if not H and not B:
+                out.append(((H, True, P, D), "producer writes, OpenSSL wants to read first: write buffered"))
+        if not H:
+            f = state_facts(True, B, P, D)
+            a1 = acts(gh, f, after_done, "_checkHandshakeStatus after completion")
+            a2 = acts(gd, f, after_hs, "dataReceived after the handshake completed")
+            a = {k: a1[k] or a2[k] for k in a1}
+            if closes(a, True):
+                out.append((CLOSING, "handshake completes"))
+            elif a["unbuffer"]:
+                t = unbuffer_tail(P, D)
+                out.append((CLOSING if closes(t, True) else (True, False, P, D), "handshake completes, buffered writes go out"))
+            else:
+                out.append(((True, B, P, D), "handshake completes"))
+        elif B:
+            a = acts(gd, state_facts(True, True, P, D), None, "dataReceived with writes buffered")
+            if closes(a, True):
+                out.append((CLOSING, "data arrives"))
+            elif a["unbuffer"]:
+                t = unbuffer_tail(P, D)
+                out.append((CLOSING if closes(t, True) else (True, False, P, D), "data arrives, buffered writes go out"))
+        return out
+
+    # reachable pending states
+    start = {}
+    for H in (False, True):
+        for B in (False, True):
+            for P in (False, True):
+                nxt, lab = ev_lose(H, B, P)
+                if nxt != CLOSING:
+                    start.setdefault(nxt, f"<handshakeDone={H} writesBuffered={B} producer={P}> --{lab}-->")
+    trans = {}
+    how = dict(start)
+    todo = list(start)
+    while todo:
+        s = todo.pop()
+        if s in trans:
+            continue
+        trans[s] = events(s)
+        for nxt, lab in trans[s]:
+            if nxt != CLOSING and nxt not in how:
+                how[nxt] = how[s] + f" <handshakeDone={s[0]} writesBuffered={s[1]} producer={s[2]} disconnecting> --{lab}-->"
+                todo.append(nxt)
+    # backward closure: who can still close
+    can = set()
+    changed = True
+    while changed:
+        changed = False
+        for s, evs in trans.items():
+            if s not in can and any(n == CLOSING or n in can for n, _ in evs):
+                can.add(s)
+                changed = True
+    q = QP[:-1]
+    ctx.extra["liveness_pending_states"] = len(trans)
+    for s in sorted(trans):
+        c = q + f" | <disconnecting, handshakeDone={s[0]} writesBuffered={s[1]} producer={s[2]}>"
+        dead = s not in can
+        entry = dead and (s in start or any(s in [n for n, _ in trans[p]] for p in trans if p in can))
+        if dead and not entry:
+            continue
+        ctx.check(not dead, "liveness/postponed-close-is-picked-up", c,
+                  "loseConnection() was called and postponed, but from this state no remaining event (producer unregisters, handshake completes, "
+                  "buffered writes drain) starts an effective TLS shutdown or aborts: disconnecting stays True forever, no close alert is sent, "
+                  "neither transport is closed and the applications never see connectionLost. The guards of loseConnection / unregisterProducer / "
+                  "_unbufferPendingWrites / dataReceived do not cover this combination between them",
+                  witness=how[s] + f" <handshakeDone={s[0]} writesBuffered={s[1]} producer={s[2]} disconnecting>: no remaining event closes")
+    ctx.floor("liveness/postponed-close-is-picked-up", len(trans), 2)
+
+
+
 def check(ctx):
     mod = ctx.mod(T)
     cls = ctx.cls(T, "TLSMemoryBIOProtocol")
     sub = ctx.cls(T, "BufferingTLSTransport")
-
-    # ---- (a) connectionLost / data delivery ----------------------------------------------------------------------------
-    sites_cl, sites_dr = [], []
-    for c_ in (cls, sub):
-        for name, m in methods(c_).items():
-            gm = ctx.cfg(m)
-            for n, call in _base_calls(gm, "connectionLost"):
-                sites_cl.append((c_.name, name, n, call))
-            for n, call in _base_calls(gm, "dataReceived"):
-                sites_dr.append((c_.name, name, n, call))
-    for cn, name, n, call in sites_cl:
-        ctx.check((cn, name) == ("TLSMemoryBIOProtocol", "connectionLost"), "lost/single-site", ctx.construct(Q + f"{cn}.{name}", call),
-                  "the application's connectionLost is invoked from a second place: it can be delivered twice")
-    for cn, name, n, call in sites_dr:
-        ctx.check((cn, name) == ("TLSMemoryBIOProtocol", "_flushReceiveBIO"), "data/single-site", ctx.construct(Q + f"{cn}.{name}", call),
-                  "application data is delivered from outside _flushReceiveBIO (bypassing the lost/aborted checks)")
-    f = ctx.func(T, "TLSMemoryBIOProtocol.connectionLost")
-    g = ctx.cfg(f)
-    q = QP + "connectionLost"
-    base = _base_calls(g, "connectionLost")
-    ctx.check(len(base) == 1, "lost/single-site", q, f"{len(base)} calls of ProtocolWrapper.connectionLost in connectionLost (exactly one)")
-    flush = call_nodes(g, "self._flushReceiveBIO")
-    shut = call_nodes(g, "self._tlsConnection.bio_shutdown")
-    lost_t = self_assigns(g, "_lostTLSConnection", lambda v: const_value_is(v, lambda x: x is True))
-    rparam = f.args.args[1].arg
-    for n, call in base:
-        c = ctx.construct(q, call)
-        w = g.must_pass([g.entry], [n])
-        ctx.check(w is None, "lost/always-forwarded", c, "some path through connectionLost does not tell the application", witness=g.describe(w))
-        facts = {"self._lostTLSConnection": False}
-        w = must_pass_under(g, facts, flush, to=[n, g.exit])
-        ctx.check(bool(flush) and w is None, "lost/data-before-lost", c,
-                  "when the transport goes away first, the bytes still sitting in the receive BIO are not delivered before connectionLost",
-                  witness=g.describe(w))
-        for fl in flush:
-            w = g.must_precede(shut, [fl])
-            ctx.check(bool(shut) and w is None, "lost/bio-shutdown-before-drain", ctx.construct(q, g.node(fl).ast),
-                      "the receive BIO is drained without first telling OpenSSL that no more data will arrive (bio_shutdown)", witness=g.describe(w))
-            back = g.path([n], [fl], strict=True, edge_ok=_nx)
-            ctx.check(back is None, "lost/no-data-after-lost", ctx.construct(q, g.node(fl).ast),
-                      "application data can be delivered after the application's connectionLost", witness=g.describe(back))
-        w = must_pass_under(g, facts, lost_t, to=[n, g.exit])
-        ctx.check(bool(lost_t) and w is None, "lost/no-data-after-lost", c,
-                  "_lostTLSConnection is not set before the application's connectionLost: a later dataReceived/_write still reaches OpenSSL "
-                  "and the application", witness=g.describe(w))
-        a = local_def(f, call.args[1]) if len(call.args) == 2 else None
-        ok = a is not None and test_value(ast.Compare(left=a, ops=[ast.Eq()], comparators=[ast.Constant("FIRST")]), {"self._reason": "FIRST", rparam: "TRANSPORT"}) is True \
-            and test_value(ast.Compare(left=a, ops=[ast.Eq()], comparators=[ast.Constant("TRANSPORT")]), {"self._reason": None, rparam: "TRANSPORT"}) is True
-        ctx.check(ok, "lost/first-reason-wins", c, "the application is not given 'the recorded TLS-level reason, else the transport's reason'")
-    f = ctx.func(T, "TLSMemoryBIOProtocol._flushReceiveBIO")
-    g = ctx.cfg(f)
-    q = QP + "_flushReceiveBIO"
-    recv = calls_with(g, "self._tlsConnection.recv")
-    ctx.need(len(recv) == 1, "single self._tlsConnection.recv() in _flushReceiveBIO")
-    rn, rcall = recv[0]
-    rst = g.node(rn).ast
-    rvar = rst.targets[0].id if isinstance(rst, ast.Assign) and isinstance(rst.targets[0], ast.Name) else None
-    for n, call in _base_calls(g, "dataReceived"):
-        c = ctx.construct(q, call)
-        ctx.check(implied(g, n, [{"self._aborted": False}], [{"self._aborted": True}]), "data/not-after-abort", c,
-                  "application data is delivered after abortConnection()")
-        ctx.check(implied(g, n, [{"self._lostTLSConnection": False}], [{"self._lostTLSConnection": True}]), "data/not-after-lost", c,
-                  "application data is delivered although the TLS connection is already lost (after connectionLost)")
-        ctx.check(len(call.args) == 2 and rvar is not None and src(call.args[1]) == rvar and g.must_precede([rn], [n]) is None, "data/what-was-received", c,
-                  "the bytes delivered are not the bytes just returned by OpenSSL's recv()")
-    fin = call_nodes(g, "self._tlsShutdownFinished")
-    for h in succ_of(g, rn, "exc"):
-        if g.node(h).kind != "handler":
-            continue
-        names = handler_names(g.node(h).ast)
-        if names == ["WantReadError"]:
-            back = g.path([h], [rn], strict=True, edge_ok=_nx)
-            ctx.check(back is None, "data/loop-terminates", ctx.construct(q, "except WantReadError:"),
-                      "after WantReadError (no more application data) the loop calls recv() again: busy loop", witness=g.describe(back))
-        else:
-            w = g.must_pass([h], fin, to=[rn, g.exit])
-            ctx.check(bool(fin) and w is None, "data/loop-terminates", ctx.construct(q, f"except {', '.join(names)}:"),
-                      "a TLS failure / clean TLS shutdown in the receive loop does not reach _tlsShutdownFinished: the loop spins and the "
-                      "transport is never closed", witness=g.describe(w))
-    fs = call_nodes(g, "self._flushSendBIO")
-    w = g.must_pass([g.entry], fs)
-    ctx.check(bool(fs) and w is None, "data/response-flushed", q, "bytes OpenSSL produced while reading (handshake replies, alerts) are not flushed to the transport",
-              witness=g.describe(w))
-
-    # ---- (b) shutdown discipline --------------------------------------------------------------------------------------------
-    allow = {
-        "loseConnection": {"buffer": True, "producer": True},
-        "_unbufferPendingWrites": {"buffer": True, "producer": True, "disconnecting": True},
-        "unregisterProducer": {"buffer": True, "disconnecting": True},
-        "abortConnection": {},
-        "_flushReceiveBIO": {"handler": "ZeroReturnError"},
-    }
-    nsites = 0
-    for c_ in (cls, sub):
-        for name, m in methods(c_).items():
-            gm = ctx.cfg(m)
-            for n, call in calls_with(gm, "self._shutdownTLS"):
-                nsites += 1
-                qq = Q + f"{c_.name}.{name}"
-                c = ctx.construct(qq, call)
-                if c_.name != "TLSMemoryBIOProtocol" or name not in allow:
-                    ctx.violation("shutdown/allowed-sites", c, "a new _shutdownTLS() call site: the TLS close alert can be sent while application writes are still buffered")
-                    continue
-                ctx.ok("shutdown/allowed-sites", c)
-                need = allow[name]
-                if need.get("buffer"):
-                    ctx.check(implied(gm, n, [{"self._appSendBuffer": ()}], [{"self._appSendBuffer": NONNULL}]), "shutdown/not-while-writes-buffered", c,
-                              "TLS shutdown is started while application writes are still waiting in _appSendBuffer: bytes written before "
-                              "loseConnection() are never sent")
-                if need.get("producer"):
-                    ctx.check(implied(gm, n, [{"self._producer": None}], [{"self._producer": NONNULL}]), "shutdown/not-while-producer", c,
-                              "TLS shutdown is started while a producer is still registered")
-                if need.get("disconnecting"):
-                    ctx.check(implied(gm, n, [{"self.disconnecting": True}], [{"self.disconnecting": False}]), "shutdown/only-if-requested", c,
-                              "TLS shutdown is started although loseConnection() was not called")
-                if need.get("handler"):
-                    inh = any(gm.node(h).kind == "handler" and need["handler"] in handler_names(gm.node(h).ast) and gm.dominates(h, n) for h in range(len(gm.nodes)))
-                    ctx.check(inh, "shutdown/only-if-requested", c, "_flushReceiveBIO starts a TLS shutdown outside the peer-initiated (ZeroReturnError) branch")
-    ctx.floor("shutdown/allowed-sites", nsites, 3)
-
-    f = ctx.func(T, "TLSMemoryBIOProtocol._shutdownTLS")
-    g = ctx.cfg(f)
-    q = QP + "_shutdownTLS"
-    sh = calls_with(g, "self._tlsConnection.shutdown")
-    ctx.need(len(sh) == 1, "self._tlsConnection.shutdown() in _shutdownTLS")
-    sst = g.node(sh[0][0]).ast
-    svar = sst.targets[0].id if isinstance(sst, ast.Assign) and isinstance(sst.targets[0], ast.Name) else "shutdownSuccess"
-    lc = call_nodes(g, "self.transport.loseConnection")
-    fs = call_nodes(g, "self._flushSendBIO")
-    ctx.check(bool(lc), "shutdown/closes-transport", q, "_shutdownTLS never closes the underlying transport")
-    for n in lc:
-        c = ctx.construct(q, g.node(n).ast)
-        ctx.check(implied(g, n, [{svar: True}], [{svar: False}]), "shutdown/transport-closed-only-after-both-sides", c,
-                  "the transport is closed although the TLS shutdown is not complete in both directions: bytes the peer wrote before its own "
-                  "loseConnection are cut off")
-        w = g.must_precede(fs, [n])
-        ctx.check(bool(fs) and w is None, "shutdown/alert-flushed-before-close", c, "the close alert is not flushed to the transport before the transport is closed",
-                  witness=g.describe(w))
-    w = must_pass_under(g, {svar: True}, lc, srcs=succ_of(g, sh[0][0], None))
-    ctx.check(w is None, "shutdown/closes-transport", q + " | <shutdown complete>", "after a complete TLS shutdown the transport is not closed", witness=g.describe(w))
-    w = g.must_pass([g.entry], fs)
-    ctx.check(bool(fs) and w is None, "shutdown/alert-flushed", q, "the close alert produced by shutdown() is not flushed to the transport on every path",
-              witness=g.describe(w))
-    for h in succ_of(g, sh[0][0], "exc"):
-        if g.node(h).kind == "handler":
-            R = reach_under(g, {}, srcs=[h])
-            sets = [x.id for x in g.nodes if x.kind == "stmt" and isinstance(x.ast, ast.Assign) and any(isinstance(t, ast.Name) and t.id == svar for t in x.ast.targets)
-                    and const_value_is(x.ast.value, lambda v: v is False)]
-            w = g.must_pass([h], sets, to=lc + [g.exit])
-            ctx.check(bool(sets) and w is None, "shutdown/transport-closed-only-after-both-sides", ctx.construct(q, "except Error:"),
-                      "a failed shutdown() is treated as complete", witness=g.describe(w))
-
-    f = ctx.func(T, "TLSMemoryBIOProtocol._tlsShutdownFinished")
-    g = ctx.cfg(f)
-    q = QP + "_tlsShutdownFinished"
-    lc = call_nodes(g, "self.transport.loseConnection", "self.transport.abortConnection")
-    fs = call_nodes(g, "self._flushSendBIO")
-    lost_t = self_assigns(g, "_lostTLSConnection", lambda v: const_value_is(v, lambda x: x is True))
-    w = g.must_pass([g.entry], lc)
-    ctx.check(bool(lc) and w is None, "finished/closes-transport", q, "some path through _tlsShutdownFinished leaves the underlying transport open", witness=g.describe(w))
-    w = g.must_pass([g.entry], lost_t)
-    ctx.check(bool(lost_t) and w is None, "finished/marks-lost", q, "_lostTLSConnection is not set: the receive loop does not terminate and later writes reach a dead TLS object",
-              witness=g.describe(w))
-    for n in lc:
-        w = g.must_precede(fs, [n])
-        ctx.check(bool(fs) and w is None, "finished/alert-flushed-before-close", ctx.construct(q, g.node(n).ast),
-                  "pending TLS alerts are not flushed before the transport is closed", witness=g.describe(w))
-    for n in self_assigns(g, "_reason"):
-        ctx.check(implied(g, n, [{"self._reason": None}], [{"self._reason": NONNULL}]), "finished/first-reason-wins", ctx.construct(q, g.node(n).ast),
-                  "a later failure overwrites the first recorded reason")
-
-    # wake-ups of a postponed shutdown
-    f = ctx.func(T, "TLSMemoryBIOProtocol._unbufferPendingWrites")
-    g = ctx.cfg(f)
-    q = QP + "_unbufferPendingWrites"
-    loops = [n for n in g.nodes if n.kind == "for" and g.reachable(n.id)]
-    ctx.need(len(loops) == 1, "the re-write loop of _unbufferPendingWrites")
-    head = loops[0]
-    tail = succ_of(g, head.id, "done")
-    st = call_nodes(g, "self._shutdownTLS")
-    rs = call_nodes(g, "self._producer.resumeProducing")
-    for facts, lab, must, never in (
-            ({"self._appSendBuffer": (), "self._producer": None, "self.disconnecting": True}, "drained, no producer, disconnecting", st, rs),
-            ({"self._appSendBuffer": (), "self._producer": NONNULL, "self.disconnecting": True}, "drained, producer registered", rs, st),
-            ({"self._appSendBuffer": (), "self._producer": None, "self.disconnecting": False}, "drained, not disconnecting", [], st + rs),
-            ({"self._appSendBuffer": NONNULL, "self._producer": NONNULL, "self.disconnecting": True}, "re-buffered", [], st + rs)):
-        c = q + f" | <{lab}>"
-        R = reach_under(g, facts, srcs=tail)
-        if must is not None and lab.startswith("drained") and "not disconnecting" not in lab:
-            w = must_pass_under(g, facts, must, srcs=tail) if must else tail
-            ctx.check(bool(must) and w is None, "unbuffer/continuation", c,
-                      "after the buffered writes went out, the postponed action (TLS shutdown requested by loseConnection / resuming the paused "
-                      "producer) is not taken: the connection never closes / the producer stays paused", witness=g.describe(w))
-        ctx.check(not (R & set(never)), "unbuffer/continuation", c + " | not",
-                  "shutdown / resume happens although writes are still buffered, a producer is registered, or no close was requested",
-                  witness=g.describe(path_under(g, facts, set(never), srcs=tail)) if R & set(never) else "")
-    # swap before re-writing
-    it = head.ast.iter
-    rew = [n for n, c in calls_with(g, "self._write") if c.args and src(c.args[0]) == src(head.ast.target)]
-    ctx.check(bool(rew), "unbuffer/rewrites", q, "the pending writes are not passed to _write again")
-    resets = self_assigns(g, "_appSendBuffer", lambda v: isinstance(v, (ast.List, ast.Tuple)) and not v.elts)
-    ok = isinstance(it, ast.Name)
-    if ok:
-        caps = []
-        for x in g.nodes:
-            if x.kind == "stmt" and g.reachable(x.id) and isinstance(x.ast, ast.Assign):
-                tg, v = x.ast.targets[0], x.ast.value
-                if isinstance(tg, ast.Name) and tg.id == it.id and src(v) == "self._appSendBuffer":
-                    caps.append(x.id)
-                elif isinstance(tg, ast.Tuple) and isinstance(v, ast.Tuple) and len(tg.elts) == len(v.elts):
-                    for t_, v_ in zip(tg.elts, v.elts):
-                        if isinstance(t_, ast.Name) and t_.id == it.id and src(v_) == "self._appSendBuffer":
-                            caps.append(x.id)
-        ok = bool(caps) and bool(resets) and g.must_precede(caps, [head.id]) is None and g.must_precede(resets, [head.id]) is None \
-            and all(g.path([r], caps, strict=True, edge_ok=_nx) is None for r in resets if r not in caps)
-    ctx.check(ok, "unbuffer/swap-before-rewrite", ctx.construct(q, f"for {src(head.ast.target)} in {src(it)}:"),
-              "the pending list is not detached (captured in a local and _appSendBuffer reset) before its elements are re-written: a write that "
-              "is re-buffered during the loop is appended to the list being iterated (endless loop / duplicated bytes) or wiped afterwards")
-    acc = class_accesses(mod, cls, {"_appSendBuffer"}, {"self"})
-    for a in acc:
-        okk = (a.func.endswith("._bufferedWrite") and a.kind == "append") or (a.func.endswith(".makeConnection") and a.kind in ("rebind-empty", "assign")) \
-            or (a.func.endswith("._unbufferPendingWrites") and a.kind in ("assign", "rebind-empty"))
-        ctx.check(okk, "buffer/fifo-who-may-write", ctx.construct(Q + a.func, a.node),
-                  f"_appSendBuffer is modified by '{a.kind}' here: pending application writes must only be appended (FIFO) by _bufferedWrite "
-                  "and detached by _unbufferPendingWrites")
-    ctx.floor("buffer/fifo-who-may-write", len(acc), 3)
-
-    f = ctx.func(T, "TLSMemoryBIOProtocol.unregisterProducer")
-    g = ctx.cfg(f)
-    q = QP + "unregisterProducer"
-    st = call_nodes(g, "self._shutdownTLS")
-    clr = self_assigns(g, "_producer", lambda v: const_value_is(v, lambda x: x is None))
-    tun = call_nodes(g, "self.transport.unregisterProducer")
-    base_f = {"self._producer": NONNULL, "isinstance(self._producer._producer, _PullToPush)": False}
-    for extra, lab, want in (({"self.disconnecting": True, "self._appSendBuffer": ()}, "disconnecting, nothing buffered", True),
-                             ({"self.disconnecting": True, "self._appSendBuffer": NONNULL}, "disconnecting, writes buffered", False),
-                             ({"self.disconnecting": False, "self._appSendBuffer": ()}, "not disconnecting", False)):
-        facts = dict(base_f, **extra)
-        c = q + f" | <{lab}>"
-        if want:
-            w = must_pass_under(g, facts, st)
-            ctx.check(w is None, "unregister/resumes-postponed-shutdown", c,
-                      "loseConnection() was postponed because of the producer; when it unregisters the TLS shutdown is not started: the connection never closes",
-                      witness=g.describe(w))
-        else:
-            ctx.check(not (reach_under(g, facts) & set(st)), "unregister/resumes-postponed-shutdown", c + " | not", "TLS shutdown started although not due")
-        w = must_pass_under(g, facts, clr)
-        ctx.check(w is None, "unregister/clears-producer", c, "the producer reference is kept after unregisterProducer", witness=g.describe(w))
-        w = must_pass_under(g, facts, tun)
-        ctx.check(w is None, "unregister/transport-unregistered", c, "the membrane is left registered with the underlying transport", witness=g.describe(w))
-    for s in st:
-        ctx.check(g.must_precede(clr, [s]) is None, "unregister/clears-producer", ctx.construct(q, g.node(s).ast) + " | before shutdown", "shutdown starts while _producer is still set")
-
-    f = ctx.func(T, "TLSMemoryBIOProtocol.loseConnection")
-    g = ctx.cfg(f)
-    q = QP + "loseConnection"
-    st = call_nodes(g, "self._shutdownTLS")
-    ab = call_nodes(g, "self.abortConnection")
-    dset = self_assigns(g, "disconnecting", lambda v: const_value_is(v, lambda x: x is True))
-    live = {"self.disconnecting": False, "self.connected": True}
-    for extra, lab, shut_now in (({"self._handshakeDone": True, "self._appSendBuffer": (), "self._producer": None}, "idle", True),
-                                 ({"self._handshakeDone": True, "self._appSendBuffer": NONNULL, "self._producer": None}, "writes buffered", False),
-                                 ({"self._handshakeDone": False, "self._appSendBuffer": NONNULL, "self._producer": None}, "handshake pending, writes buffered", False),
-                                 ({"self._handshakeDone": True, "self._appSendBuffer": (), "self._producer": NONNULL}, "producer registered", False)):
-        facts = dict(live, **extra)
-        c = q + f" | <{lab}>"
-        w = must_pass_under(g, facts, dset)
-        ctx.check(w is None, "lose/records-request", c, "loseConnection() does not set disconnecting: the postponed shutdown is never picked up", witness=g.describe(w))
-        R = reach_under(g, facts)
-        if shut_now:
-            w = must_pass_under(g, facts, st)
-            ctx.check(w is None, "lose/shuts-down-when-idle", c, "nothing is pending but the TLS shutdown is not started", witness=g.describe(w))
-        else:
-            ctx.check(not (R & set(st)) and not (R & set(ab)), "lose/postponed-while-pending", c,
-                      "the TLS shutdown / abort is started although application writes are buffered or a producer is registered: bytes written "
-                      "before loseConnection() are lost", witness=g.describe(path_under(g, facts, set(st) | set(ab))))
-    R = reach_under(g, {"self.disconnecting": False, "self.connected": False})
-    ctx.check(not (R & (set(st) | set(ab) | set(dset))), "lose/only-while-connected", q + " | <not connected>", "loseConnection() acts on a connection that is already gone")
-
-    # ---- (c) the write path --------------------------------------------------------------------------------------------------------
-    f = ctx.func(T, "TLSMemoryBIOProtocol._write")
-    g = ctx.cfg(f)
-    q = QP + "_write"
-    bparam = f.args.args[1].arg
-    snd = calls_with(g, "self._tlsConnection.send")
-    ctx.need(len(snd) == 1, "single self._tlsConnection.send() in _write")
-    sn, scall = snd[0]
-    sst = g.node(sn).ast
-    sentv = sst.targets[0].id if isinstance(sst, ast.Assign) and isinstance(sst.targets[0], ast.Name) else None
-    chunk = local_def(f, scall.args[0]) if scall.args else None
-    sp = slice_parts(chunk) if chunk is not None else None
-    posv = src(sp[1]) if sp and sp[1] is not None else None
-    ok = bool(sp) and src(sp[0]) == bparam and posv is not None and sp[2] is not None and posv in src(sp[2])
-    ctx.check(ok, "write/chunk-from-position", ctx.construct(q, scall), "the chunk handed to OpenSSL does not start at the position reached so far")
-    adv = [x.id for x in g.nodes if x.kind == "stmt" and g.reachable(x.id) and isinstance(x.ast, ast.AugAssign) and posv and src(x.ast.target) == posv]
-    ctx.check(len(adv) == 1 and isinstance(g.node(adv[0]).ast.op, ast.Add) and src(g.node(adv[0]).ast.value) == sentv and g.must_precede([sn], adv) is None,
-              "write/advance-by-accepted", q + " | <position>", "the position does not advance by exactly what send() accepted (bytes skipped or sent twice)")
-    fsb = call_nodes(g, "self._flushSendBIO")
-    w = g.must_pass(succ_of(g, sn, None), fsb, to=[sn, g.exit]) if succ_of(g, sn, None) else None
-    ctx.check(bool(fsb) and w is None, "write/ciphertext-flushed", q + " | <after send>", "encrypted bytes are left in the send BIO after a successful send()",
-              witness=g.describe(w))
-    bw = calls_with(g, "self._bufferedWrite")
-    for h in succ_of(g, sn, "exc"):
-        if g.node(h).kind != "handler":
-            continue
-        names = handler_names(g.node(h).ast)
-        hc = ctx.construct(q, f"except {', '.join(names)}:")
-        back = g.path([h], [sn], strict=True, edge_ok=_nx)
-        ctx.check(back is None, "write/handler-leaves-loop", hc, "after a failed send() the loop tries again with the same data", witness=g.describe(back))
-        if "WantReadError" in names:
-            mine = [(n, c) for n, c in bw if g.dominates(h, n)]
-            w = g.must_pass([h], [n for n, _ in mine])
-            ctx.check(bool(mine) and w is None, "write/wantread-rebuffers", hc, "data OpenSSL cannot take yet is dropped instead of being buffered", witness=g.describe(w))
-            for n, c in mine:
-                a = slice_parts(c.args[0]) if c.args else None
-                ctx.check(bool(a) and src(a[0]) == bparam and a[1] is not None and src(a[1]) == posv and a[2] is None, "write/wantread-rebuffers-unsent-suffix",
-                          ctx.construct(q, c), "what is re-buffered is not exactly the unsent suffix bytes[alreadySent:] (a prefix is duplicated or the tail is lost)")
-        else:
-            fin = call_nodes(g, "self._tlsShutdownFinished")
-            w = g.must_pass([h], [n for n in fin if g.dominates(h, n)])
-            ctx.check(w is None and bool(fin), "write/error-closes", hc, "a TLS error while writing does not tear the connection down", witness=g.describe(w))
-    heads = [x.id for x in g.nodes if x.kind == "join" and isinstance(x.ast, ast.While) and g.reachable(x.id)]
-    if heads and posv:
-        for pos, ln, enter in ((4, 5, True), (5, 5, False), (0, 0, False)):
-            R = reach_under(g, {posv: pos, f"len({bparam})": ln}, srcs=heads)
-            ctx.check((sn in R) == enter, "write/loop-boundary", q + f" | <position {pos} of {ln}>",
-                      "send() is not attempted although bytes remain" if enter else "send() is attempted with nothing left to send (endless loop on empty chunks)")
-    R = reach_under(g, {"self._lostTLSConnection": True})
-    ctx.check(sn not in R, "write/not-after-lost", q + " | <TLS connection lost>", "bytes are handed to OpenSSL after the TLS connection was lost")
-    w = must_pass_under(g, {"self._lostTLSConnection": False, f"len({bparam})": 3}, [sn])
-    ctx.check(w is None, "write/reaches-openssl", q + " | <connected>", "_write returns without handing the bytes to OpenSSL", witness=g.describe(w))
-
-    f = ctx.func(T, "TLSMemoryBIOProtocol.write")
-    g = ctx.cfg(f)
-    q = QP + "write"
-    bparam = f.args.args[1].arg
-    wr = [n for n, c in calls_with(g, "self._write") if c.args and src(c.args[0]) == bparam]
-    for facts, lab, sent in (({"self.disconnecting": False}, "not disconnecting", True), ({"self.disconnecting": True, "self._producer": NONNULL}, "disconnecting, producer registered", True),
-                             ({"self.disconnecting": True, "self._producer": None}, "disconnecting, no producer", False)):
-        c = q + f" | <{lab}>"
-        if sent:
-            w = must_pass_under(g, facts, wr)
-            ctx.check(w is None, "write/dropped-only-after-close", c, "written bytes are dropped although the connection is not closing (or its producer is still registered)",
-                      witness=g.describe(w))
-        else:
-            ctx.check(not (reach_under(g, facts) & set(wr)), "write/dropped-only-after-close", c, "bytes written after loseConnection() are still sent")
-    f = ctx.func(T, "TLSMemoryBIOProtocol.writeSequence")
-    ip = f.args.args[1].arg
-    ok = any(call_name(c) == "self.write" and c.args and src(c.args[0]) == f"b''.join({ip})" for c in walk_local(f) if isinstance(c, ast.Call))
-    ctx.check(ok, "write/sequence-routes-through-write", QP + "writeSequence", "writeSequence does not go through write(b''.join(iovec)) (disconnect / ordering rules bypassed)")
-    f = ctx.func(T, "TLSMemoryBIOProtocol._bufferedWrite")
-    g = ctx.cfg(f)
-    q = QP + "_bufferedWrite"
-    ps = call_nodes(g, "self._producer.pauseProducing")
-    w = must_pass_under(g, {"self._producer": NONNULL}, ps)
-    ctx.check(w is None, "backpressure/pause-on-buffering", q + " | <producer registered>", "a producer is not paused when its data has to be buffered", witness=g.describe(w))
-    ctx.check(not (reach_under(g, {"self._producer": None}) & set(ps)), "backpressure/pause-on-buffering", q + " | <no producer>", "pauseProducing on None")
-    f = ctx.func(T, "TLSMemoryBIOProtocol._flushSendBIO")
-    g = ctx.cfg(f)
-    q = QP + "_flushSendBIO"
-    br = calls_with(g, "self._tlsConnection.bio_read")
-    tw = calls_with(g, "self.transport.write")
-    ok = len(br) == 1 and len(tw) == 1 and isinstance(g.node(br[0][0]).ast, ast.Assign) and tw[0][1].args and \
-        src(tw[0][1].args[0]) == src(g.node(br[0][0]).ast.targets[0]) and g.must_pass([br[0][0]], [tw[0][0]]) is None
-    ctx.check(ok, "write/ciphertext-to-transport", q, "what bio_read() returned is not written to the underlying transport")
-
-    # buffering subclass + aggregator
-    f = ctx.func(T, "BufferingTLSTransport.loseConnection")
-    g = ctx.cfg(f)
-    q = Q + "BufferingTLSTransport.loseConnection"
-    fl = call_nodes(g, "self._aggregator.flush")
-    sup = [n for n, c in calls_with(g, ".loseConnection") if src(c.func) in ("super().loseConnection", "TLSMemoryBIOProtocol.loseConnection")]
-    ctx.check(bool(sup) and g.must_pass([g.entry], sup) is None, "aggregate/lose-forwards", q, "loseConnection() is not forwarded to TLSMemoryBIOProtocol")
-    for s in sup:
-        w = g.must_precede(fl, [s])
-        ctx.check(bool(fl) and w is None, "aggregate/flushed-before-lose", ctx.construct(q, g.node(s).ast),
-                  "small writes still held by the aggregator are not flushed before loseConnection(): bytes written before the close are dropped",
-                  witness=g.describe(w))
-    f = ctx.func(T, "BufferingTLSTransport.writeSequence")
-    ip = f.args.args[1].arg
-    ok = any(call_name(c) in ("self._aggregator.write", "self.write") and c.args and src(c.args[0]) == f"b''.join({ip})" for c in walk_local(f) if isinstance(c, ast.Call))
-    ctx.check(ok, "aggregate/sequence-routes-through-aggregator", Q + "BufferingTLSTransport.writeSequence",
-              "writeSequence bypasses the aggregator: its bytes overtake earlier small writes still waiting there")
-    f = ctx.func(T, "BufferingTLSTransport.__init__")
-    srcs_ = [src(st) for st in walk_local(f) if isinstance(st, ast.Assign)]
-    ctx.check("self.write = self._aggregator.write" in srcs_ and any(s.startswith("self._aggregator = _AggregateSmallWrites(") for s in srcs_),
-              "aggregate/write-routes-through-aggregator", Q + "BufferingTLSTransport.__init__", "write is not bound to the aggregator")
-
     A = Q + "_AggregateSmallWrites."
-    f = ctx.func(T, "_AggregateSmallWrites.write")
-    g = ctx.cfg(f)
-    q = A + "write"
-    dp = f.args.args[1].arg
-    ap = [n for n, c in calls_with(g, "self._buffer.append") if c.args and src(c.args[0]) == dp]
-    dec = [x.id for x in g.nodes if x.kind == "stmt" and g.reachable(x.id) and isinstance(x.ast, ast.AugAssign) and src(x.ast.target) == "self._bufferLeft"
-           and isinstance(x.ast.op, ast.Sub) and src(x.ast.value) == f"len({dp})"]
-    ctx.check(bool(ap) and g.must_pass([g.entry], ap) is None, "aggregate/append", q, "the data is not appended to the aggregation buffer on every path")
-    ctx.check(bool(dec) and g.must_pass([g.entry], dec) is None, "aggregate/size-coupled", q, "_bufferLeft is not reduced by len(data) together with the append")
-    fl = call_nodes(g, "self.flush")
-    cl = [(n, c) for n, c in calls_with(g, "self._clock.callLater")]
-    after = [s for d in dec for s in succ_of(g, d, None)]
-    w = must_pass_under(g, {"self._bufferLeft": -1}, fl, srcs=after)
-    ctx.check(w is None, "aggregate/flush-when-full", q + " | <buffer over limit>", "an over-full aggregation buffer is not flushed at once", witness=g.describe(w))
-    facts = {"self._bufferLeft": 0, "self._scheduled": None}
-    w = must_pass_under(g, facts, [n for n, _ in cl], srcs=after)
-    ctx.check(w is None, "aggregate/flush-scheduled", q + " | <first small write>",
-              "a small write is buffered but no flush is scheduled: the bytes are never sent unless more data follows", witness=g.describe(w))
-    for n, c in cl:
-        st_ = g.node(n).ast
-        ok = isinstance(st_, ast.Assign) and src(st_.targets[0]) == "self._scheduled" and len(c.args) == 2 and src(c.args[1]) == "self._scheduledFlush"
-        ctx.check(ok, "aggregate/flush-scheduled", ctx.construct(q, c), "the scheduled call is not remembered in _scheduled / does not run _scheduledFlush")
-    R = reach_under(g, {"self._bufferLeft": 0, "self._scheduled": NONNULL}, srcs=after)
-    ctx.check(not (R & {n for n, _ in cl}), "aggregate/one-timer", q + " | <flush already scheduled>", "a second flush timer is started while one is pending")
-    f = ctx.func(T, "_AggregateSmallWrites._scheduledFlush")
-    g = ctx.cfg(f)
-    q = A + "_scheduledFlush"
-    rs = self_assigns(g, "_scheduled", lambda v: const_value_is(v, lambda x: x is None))
-    fl = call_nodes(g, "self.flush")
-    ctx.check(bool(rs) and g.must_pass([g.entry], rs) is None, "aggregate/timer-rearmed", q,
-              "_scheduled is not cleared when the timer fires: every later small write believes a flush is pending and is never sent")
-    ctx.check(bool(fl) and g.must_pass([g.entry], fl) is None, "aggregate/timer-flushes", q, "the timer does not flush the buffer")
-    f = ctx.func(T, "_AggregateSmallWrites.flush")
-    g = ctx.cfg(f)
-    q = A + "flush"
-    wr = [(n, c) for n, c in calls_with(g, "self._write")]
-    facts = {"self._buffer": NONNULL}
-    w = must_pass_under(g, facts, [n for n, _ in wr])
-    ctx.check(w is None, "aggregate/flush-writes", q + " | <non-empty>", "flush() does not write the aggregated bytes", witness=g.describe(w))
-    for n, c in wr:
-        ctx.check(len(c.args) == 1 and src(c.args[0]) == "b''.join(self._buffer)", "aggregate/flush-writes", ctx.construct(q, c), "flush() does not write the buffered pieces joined in order")
-    acc = [a for a in class_accesses(mod, ctx.cls(T, "_AggregateSmallWrites"), {"_buffer"}, {"self"}) if a.func.endswith(".flush")]
-    clears = [i for a in acc if a.kind in ("clear", "rebind-empty", "del-prefix") for i in g.ids_of(a.node)]
-    w = must_pass_under(g, facts, clears)
-    ctx.check(w is None, "aggregate/flush-empties", q + " | <non-empty>", "the aggregation buffer is not emptied by flush(): the same bytes are written again", witness=g.describe(w))
-    rl = self_assigns(g, "_bufferLeft", lambda v: src(v) == "self.MAX_BUFFER_SIZE")
-    w = must_pass_under(g, facts, rl)
-    ctx.check(w is None, "aggregate/size-coupled", q + " | <non-empty>", "_bufferLeft is not reset when the buffer is emptied", witness=g.describe(w))
 
-    # ---- (d) dataReceived, handshake, producers --------------------------------------------------------------------------------------
-    f = ctx.func(T, "TLSMemoryBIOProtocol.dataReceived")
-    g = ctx.cfg(f)
-    q = QP + "dataReceived"
-    bparam = f.args.args[1].arg
-    bw = [n for n, c in calls_with(g, "self._tlsConnection.bio_write") if c.args and src(c.args[0]) == bparam]
-    hs = call_nodes(g, "self._checkHandshakeStatus")
-    ub = call_nodes(g, "self._unbufferPendingWrites")
-    fr = call_nodes(g, "self._flushReceiveBIO")
-    ctx.check(bool(bw) and g.must_pass([g.entry], bw) is None and all(g.must_precede(bw, [x]) is None for x in hs + ub + fr), "received/fed-to-openssl-first", q,
-              "the received bytes are not handed to OpenSSL before the handshake / receive processing")
-    w = must_pass_under(g, {"self._handshakeDone": True, "self._appSendBuffer": NONNULL}, ub, to=fr + [g.exit])
-    ctx.check(w is None, "received/unblocks-buffered-writes", q + " | <handshake done, writes buffered>",
-              "incoming data does not retry the application writes that were waiting for it", witness=g.describe(w))
-    w = must_pass_under(g, {"self._handshakeDone": True, "self._appSendBuffer": ()}, fr)
-    ctx.check(w is None, "received/drains-receive-bio", q + " | <handshake done>", "application data made available by the new bytes is not delivered", witness=g.describe(w))
-    for h in hs:
-        nxt = succ_of(g, h, None)
-        w = must_pass_under(g, {"self._handshakeDone": True, "self._appSendBuffer": ()}, fr, srcs=nxt)
-        ctx.check(w is None, "received/handshake-retested", ctx.construct(q, g.node(h).ast),
-                  "when the handshake completes with this very segment, the application data that followed it in the same segment is not processed "
-                  "until more data arrives", witness=g.describe(w))
-        R = reach_under(g, {"self._handshakeDone": False, "self._appSendBuffer": NONNULL}, srcs=nxt)
-        ctx.check(not (R & set(ub)), "received/no-unbuffer-before-handshake", ctx.construct(q, g.node(h).ast) + " | pending",
-                  "buffered writes are retried although the handshake is still incomplete")
-        ctx.check(implied(g, h, [{"self._handshakeDone": False}], [{"self._handshakeDone": True}]), "received/handshake-only-while-pending", ctx.construct(q, g.node(h).ast) + " | once",
-                  "do_handshake() is driven again after the handshake completed")
-    f = ctx.func(T, "TLSMemoryBIOProtocol._checkHandshakeStatus")
-    g = ctx.cfg(f)
-    q = QP + "_checkHandshakeStatus"
-    dh = call_nodes(g, "self._tlsConnection.do_handshake")
-    ctx.need(len(dh) == 1, "do_handshake() in _checkHandshakeStatus")
-    done = self_assigns(g, "_handshakeDone", lambda v: const_value_is(v, lambda x: x is True))
-    w = g.must_pass([dh[0]], done)
-    ctx.check(bool(done) and w is None, "handshake/completion-recorded", q, "a successful do_handshake() is not recorded in _handshakeDone", witness=g.describe(w))
-    for d in done:
-        ctx.check(g.must_precede(dh, [d]) is None and not [h for h in range(len(g.nodes)) if g.node(h).kind == "handler" and g.dominates(h, d)],
-                  "handshake/completion-recorded", ctx.construct(q, g.node(d).ast), "_handshakeDone is set on a path where do_handshake() did not succeed")
-    for h in succ_of(g, dh[0], "exc"):
-        if g.node(h).kind != "handler":
-            continue
-        names = handler_names(g.node(h).ast)
-        if "WantReadError" in names:
-            w = g.must_pass([h], call_nodes(g, "self._flushSendBIO"))
-            ctx.check(w is None, "handshake/progress-flushed", ctx.construct(q, "except WantReadError:"), "handshake bytes produced so far are not flushed to the peer: the handshake stalls",
-                      witness=g.describe(w))
-        else:
-            w = g.must_pass([h], call_nodes(g, "self._tlsShutdownFinished"))
-            ctx.check(w is None, "handshake/failure-closes", ctx.construct(q, f"except {', '.join(names)}:"), "a failed handshake does not close the connection", witness=g.describe(w))
-    R = reach_under(g, {"self._aborted": True})
-    ctx.check(not (R & set(dh)), "handshake/not-after-abort", q + " | <aborted>", "the handshake is driven on an aborted connection")
-
-    f = ctx.func(T, "TLSMemoryBIOProtocol.registerProducer")
-    g = ctx.cfg(f)
-    q = QP + "registerProducer"
-    pp = f.args.args[1].arg
-    store = self_assigns(g, "_producer")
-    treg = [(n, c) for n, c in calls_with(g, "self.transport.registerProducer")]
-    R = reach_under(g, {"self._lostTLSConnection": True})
-    w = must_pass_under(g, {"self._lostTLSConnection": True}, call_nodes(g, f"{pp}.stopProducing"))
-    ctx.check(w is None and not (R & set(store)) and not (R & {n for n, _ in treg}), "producer/stopped-when-lost", q + " | <TLS connection lost>",
-              "a producer registered after the connection was lost is not stopped (or is registered anyway)", witness=g.describe(w))
-    for st_flag in (True, False):
-        facts = {"self._lostTLSConnection": False, f.args.args[2].arg: st_flag}
-        w1 = must_pass_under(g, facts, store)
-        w2 = must_pass_under(g, facts, [n for n, _ in treg])
-        ctx.check(w1 is None and w2 is None, "producer/registered-both-levels", q + f" | <streaming={st_flag}>",
-                  "the producer is not both remembered in _producer and registered with the transport", witness=g.describe(w1 or w2))
-    for n, c in treg:
-        ok = len(c.args) == 2 and const_value_is(c.args[1], lambda v: v is True) and any(src(g.node(s).ast.value) == src(c.args[0]) for s in store)
-        ctx.check(ok, "producer/registered-both-levels", ctx.construct(q, c), "the transport is not given the same (membrane-wrapped, streaming) producer that _producer holds")
-    mem = [x.id for x in g.nodes if x.kind == "stmt" and isinstance(x.ast, ast.Assign) and isinstance(x.ast.value, ast.Call) and call_name(x.ast.value) == "_ProducerMembrane"]
-    ctx.check(bool(mem) and all(g.must_precede(mem, [s]) is None for s in store), "producer/membrane", q, "the producer is stored without the pause/resume membrane")
-    for name, flagval, callee in (("pauseProducing", True, "self._producer.pauseProducing"), ("resumeProducing", False, "self._producer.resumeProducing")):
-        f = ctx.func(T, f"_ProducerMembrane.{name}")
+    with ctx.section("delivery sites"):
+        # ---- sec: delivery sites
+        # ---- (a) connectionLost / data delivery ----------------------------------------------------------------------------
+        sites_cl, sites_dr = [], []
+        for c_ in (cls, sub):
+            for name, m in methods(c_).items():
+                gm = ctx.cfg(m)
+                for n, call in _base_calls(gm, "connectionLost"):
+                    sites_cl.append((c_.name, name, n, call))
+                for n, call in _base_calls(gm, "dataReceived"):
+                    sites_dr.append((c_.name, name, n, call))
+        for cn, name, n, call in sites_cl:
+            ctx.check((cn, name) == ("TLSMemoryBIOProtocol", "connectionLost"), "lost/single-site", ctx.construct(Q + f"{cn}.{name}", call),
+                      "the application's connectionLost is invoked from a second place: it can be delivered twice")
+        for cn, name, n, call in sites_dr:
+            ctx.check((cn, name) == ("TLSMemoryBIOProtocol", "_flushReceiveBIO"), "data/single-site", ctx.construct(Q + f"{cn}.{name}", call),
+                      "application data is delivered from outside _flushReceiveBIO (bypassing the lost/aborted checks)")
+    with ctx.section("TLSMemoryBIOProtocol.connectionLost"):
+        # ---- sec: TLSMemoryBIOProtocol.connectionLost
+        f = ctx.func(T, "TLSMemoryBIOProtocol.connectionLost")
         g = ctx.cfg(f)
-        q = Q + f"_ProducerMembrane.{name}"
-        cs = call_nodes(g, callee)
-        fl = self_assigns(g, "_producerPaused", lambda v, fv=flagval: const_value_is(v, lambda x: x is fv))
-        w = must_pass_under(g, {"self._producerPaused": not flagval}, cs)
-        ctx.check(w is None, "membrane/forwards-change", q + " | <state changes>", f"{name}() is not forwarded to the producer when its state has to change", witness=g.describe(w))
-        R = reach_under(g, {"self._producerPaused": flagval})
-        ctx.check(not (R & set(cs)), "membrane/idempotent", q + " | <no change>", f"{name}() is forwarded again although the producer is already in that state")
-        ctx.check(bool(fl) and all(g.must_precede(fl, [c]) is None for c in cs), "membrane/flag-before-callout", q,
-                  "the membrane flag is not updated before the producer call-out (a producer that writes from resumeProducing and gets paused again is left inconsistent)")
-    f = ctx.func(T, "TLSMemoryBIOProtocol.abortConnection")
-    g = ctx.cfg(f)
-    q = QP + "abortConnection"
-    need = {"_aborted = True": self_assigns(g, "_aborted", lambda v: const_value_is(v, lambda x: x is True)),
-            "transport.abortConnection()": call_nodes(g, "self.transport.abortConnection")}
-    for what, ns in need.items():
-        ctx.check(bool(ns) and g.must_pass([g.entry], ns) is None, "abort/complete", q + f" | {what}", f"abortConnection() does not always perform {what}")
+        q = QP + "connectionLost"
+        base = _base_calls(g, "connectionLost")
+        ctx.check(len(base) == 1, "lost/single-site", q, f"{len(base)} calls of ProtocolWrapper.connectionLost in connectionLost (exactly one)")
+        flush = call_nodes(g, "self._flushReceiveBIO")
+        shut = call_nodes(g, "self._tlsConnection.bio_shutdown")
+        lost_t = self_assigns(g, "_lostTLSConnection", lambda v: const_value_is(v, lambda x: x is True))
+        rparam = f.args.args[1].arg
+        for n, call in base:
+            c = ctx.construct(q, call)
+            w = g.must_pass([g.entry], [n])
+            ctx.check(w is None, "lost/always-forwarded", c, "some path through connectionLost does not tell the application", witness=g.describe(w))
+            facts = {"self._lostTLSConnection": False}
+            w = must_pass_under(g, facts, flush, to=[n, g.exit])
+            ctx.check(bool(flush) and w is None, "lost/data-before-lost", c,
+                      "when the transport goes away first, the bytes still sitting in the receive BIO are not delivered before connectionLost",
+                      witness=g.describe(w))
+            for fl in flush:
+                w = g.must_precede(shut, [fl])
+                ctx.check(bool(shut) and w is None, "lost/bio-shutdown-before-drain", ctx.construct(q, g.node(fl).ast),
+                          "the receive BIO is drained without first telling OpenSSL that no more data will arrive (bio_shutdown)", witness=g.describe(w))
+                back = g.path([n], [fl], strict=True, edge_ok=_nx)
+                ctx.check(back is None, "lost/no-data-after-lost", ctx.construct(q, g.node(fl).ast),
+                          "application data can be delivered after the application's connectionLost", witness=g.describe(back))
+            w = must_pass_under(g, facts, lost_t, to=[n, g.exit])
+            ctx.check(bool(lost_t) and w is None, "lost/no-data-after-lost", c,
+                      "_lostTLSConnection is not set before the application's connectionLost: a later dataReceived/_write still reaches OpenSSL "
+                      "and the application", witness=g.describe(w))
+            a = local_def(f, call.args[1]) if len(call.args) == 2 else None
+            ok = a is not None and test_value(ast.Compare(left=a, ops=[ast.Eq()], comparators=[ast.Constant("FIRST")]), {"self._reason": "FIRST", rparam: "TRANSPORT"}) is True \
+                and test_value(ast.Compare(left=a, ops=[ast.Eq()], comparators=[ast.Constant("TRANSPORT")]), {"self._reason": None, rparam: "TRANSPORT"}) is True
+            ctx.check(ok, "lost/first-reason-wins", c, "the application is not given 'the recorded TLS-level reason, else the transport's reason'")
+    with ctx.section("TLSMemoryBIOProtocol._flushReceiveBIO"):
+        # ---- sec: TLSMemoryBIOProtocol._flushReceiveBIO
+        f = ctx.func(T, "TLSMemoryBIOProtocol._flushReceiveBIO")
+        g = ctx.cfg(f)
+        q = QP + "_flushReceiveBIO"
+        recv = calls_with(g, "self._tlsConnection.recv")
+        ctx.need(len(recv) == 1, "single self._tlsConnection.recv() in _flushReceiveBIO")
+        rn, rcall = recv[0]
+        rst = g.node(rn).ast
+        rvar = rst.targets[0].id if isinstance(rst, ast.Assign) and isinstance(rst.targets[0], ast.Name) else None
+        for n, call in _base_calls(g, "dataReceived"):
+            c = ctx.construct(q, call)
+            ctx.check(implied(g, n, [{"self._aborted": False}], [{"self._aborted": True}]), "data/not-after-abort", c,
+                      "application data is delivered after abortConnection()")
+            ctx.check(implied(g, n, [{"self._lostTLSConnection": False}], [{"self._lostTLSConnection": True}]), "data/not-after-lost", c,
+                      "application data is delivered although the TLS connection is already lost (after connectionLost)")
+            ctx.check(len(call.args) == 2 and rvar is not None and src(call.args[1]) == rvar and g.must_precede([rn], [n]) is None, "data/what-was-received", c,
+                      "the bytes delivered are not the bytes just returned by OpenSSL's recv()")
+        fin = call_nodes(g, "self._tlsShutdownFinished")
+        for h in succ_of(g, rn, "exc"):
+            if g.node(h).kind != "handler":
+                continue
+            names = handler_names(g.node(h).ast)
+            if names == ["WantReadError"]:
+                back = g.path([h], [rn], strict=True, edge_ok=_nx)
+                ctx.check(back is None, "data/loop-terminates", ctx.construct(q, "except WantReadError:"),
+                          "after WantReadError (no more application data) the loop calls recv() again: busy loop", witness=g.describe(back))
+            else:
+                w = g.must_pass([h], fin, to=[rn, g.exit])
+                ctx.check(bool(fin) and w is None, "data/loop-terminates", ctx.construct(q, f"except {', '.join(names)}:"),
+                          "a TLS failure / clean TLS shutdown in the receive loop does not reach _tlsShutdownFinished: the loop spins and the "
+                          "transport is never closed", witness=g.describe(w))
+        fs = call_nodes(g, "self._flushSendBIO")
+        w = g.must_pass([g.entry], fs)
+        ctx.check(bool(fs) and w is None, "data/response-flushed", q, "bytes OpenSSL produced while reading (handshake replies, alerts) are not flushed to the transport",
+                  witness=g.describe(w))
+
+    with ctx.section("shutdown call sites"):
+        # ---- sec: shutdown call sites
+        # ---- (b) shutdown discipline --------------------------------------------------------------------------------------------
+        allow = {
+            "loseConnection": {"buffer": True, "producer": True},
+            "_unbufferPendingWrites": {"buffer": True, "producer": True, "disconnecting": True},
+            "unregisterProducer": {"buffer": True, "disconnecting": True},
+            "abortConnection": {},
+            "_flushReceiveBIO": {"handler": "ZeroReturnError"},
+        }
+        nsites = 0
+        for c_ in (cls, sub):
+            for name, m in methods(c_).items():
+                gm = ctx.cfg(m)
+                for n, call in calls_with(gm, "self._shutdownTLS"):
+                    nsites += 1
+                    qq = Q + f"{c_.name}.{name}"
+                    c = ctx.construct(qq, call)
+                    if c_.name != "TLSMemoryBIOProtocol" or name not in allow:
+                        ctx.violation("shutdown/allowed-sites", c, "a new _shutdownTLS() call site: the TLS close alert can be sent while application writes are still buffered")
+                        continue
+                    ctx.ok("shutdown/allowed-sites", c)
+                    need = allow[name]
+                    if need.get("buffer"):
+                        ctx.check(implied(gm, n, [{"self._appSendBuffer": ()}], [{"self._appSendBuffer": NONNULL}]), "shutdown/not-while-writes-buffered", c,
+                                  "TLS shutdown is started while application writes are still waiting in _appSendBuffer: bytes written before "
+                                  "loseConnection() are never sent")
+                    if need.get("producer"):
+                        ctx.check(implied(gm, n, [{"self._producer": None}], [{"self._producer": NONNULL}]), "shutdown/not-while-producer", c,
+                                  "TLS shutdown is started while a producer is still registered")
+                    if need.get("disconnecting"):
+                        ctx.check(implied(gm, n, [{"self.disconnecting": True}], [{"self.disconnecting": False}]), "shutdown/only-if-requested", c,
+                                  "TLS shutdown is started although loseConnection() was not called")
+                    if need.get("handler"):
+                        inh = any(gm.node(h).kind == "handler" and need["handler"] in handler_names(gm.node(h).ast) and gm.dominates(h, n) for h in range(len(gm.nodes)))
+                        ctx.check(inh, "shutdown/only-if-requested", c, "_flushReceiveBIO starts a TLS shutdown outside the peer-initiated (ZeroReturnError) branch")
+        ctx.floor("shutdown/allowed-sites", nsites, 3)
+
+    with ctx.section("TLSMemoryBIOProtocol._shutdownTLS"):
+        # ---- sec: TLSMemoryBIOProtocol._shutdownTLS
+        f = ctx.func(T, "TLSMemoryBIOProtocol._shutdownTLS")
+        g = ctx.cfg(f)
+        q = QP + "_shutdownTLS"
+        sh = calls_with(g, "self._tlsConnection.shutdown")
+        ctx.need(len(sh) == 1, "self._tlsConnection.shutdown() in _shutdownTLS")
+        sst = g.node(sh[0][0]).ast
+        svar = sst.targets[0].id if isinstance(sst, ast.Assign) and isinstance(sst.targets[0], ast.Name) else "shutdownSuccess"
+        lc = call_nodes(g, "self.transport.loseConnection")
+        fs = call_nodes(g, "self._flushSendBIO")
+        ctx.check(bool(lc), "shutdown/closes-transport", q, "_shutdownTLS never closes the underlying transport")
+        for n in lc:
+            c = ctx.construct(q, g.node(n).ast)
+            ctx.check(implied(g, n, [{svar: True}], [{svar: False}]), "shutdown/transport-closed-only-after-both-sides", c,
+                      "the transport is closed although the TLS shutdown is not complete in both directions: bytes the peer wrote before its own "
+                      "loseConnection are cut off")
+            w = g.must_precede(fs, [n])
+            ctx.check(bool(fs) and w is None, "shutdown/alert-flushed-before-close", c, "the close alert is not flushed to the transport before the transport is closed",
+                      witness=g.describe(w))
+        w = must_pass_under(g, {svar: True}, lc, srcs=succ_of(g, sh[0][0], None))
+        ctx.check(w is None, "shutdown/closes-transport", q + " | <shutdown complete>", "after a complete TLS shutdown the transport is not closed", witness=g.describe(w))
+        w = g.must_pass([g.entry], fs)
+        ctx.check(bool(fs) and w is None, "shutdown/alert-flushed", q, "the close alert produced by shutdown() is not flushed to the transport on every path",
+                  witness=g.describe(w))
+        for h in succ_of(g, sh[0][0], "exc"):
+            if g.node(h).kind == "handler":
+                R = reach_under(g, {}, srcs=[h])
+                sets = [x.id for x in g.nodes if x.kind == "stmt" and isinstance(x.ast, ast.Assign) and any(isinstance(t, ast.Name) and t.id == svar for t in x.ast.targets)
+                        and const_value_is(x.ast.value, lambda v: v is False)]
+                w = g.must_pass([h], sets, to=lc + [g.exit])
+                ctx.check(bool(sets) and w is None, "shutdown/transport-closed-only-after-both-sides", ctx.construct(q, "except Error:"),
+                          "a failed shutdown() is treated as complete", witness=g.describe(w))
+
+    with ctx.section("TLSMemoryBIOProtocol._tlsShutdownFinished"):
+        # ---- sec: TLSMemoryBIOProtocol._tlsShutdownFinished
+        f = ctx.func(T, "TLSMemoryBIOProtocol._tlsShutdownFinished")
+        g = ctx.cfg(f)
+        q = QP + "_tlsShutdownFinished"
+        lc = call_nodes(g, "self.transport.loseConnection", "self.transport.abortConnection")
+        fs = call_nodes(g, "self._flushSendBIO")
+        lost_t = self_assigns(g, "_lostTLSConnection", lambda v: const_value_is(v, lambda x: x is True))
+        w = g.must_pass([g.entry], lc)
+        ctx.check(bool(lc) and w is None, "finished/closes-transport", q, "some path through _tlsShutdownFinished leaves the underlying transport open", witness=g.describe(w))
+        w = g.must_pass([g.entry], lost_t)
+        ctx.check(bool(lost_t) and w is None, "finished/marks-lost", q, "_lostTLSConnection is not set: the receive loop does not terminate and later writes reach a dead TLS object",
+                  witness=g.describe(w))
+        for n in lc:
+            w = g.must_precede(fs, [n])
+            ctx.check(bool(fs) and w is None, "finished/alert-flushed-before-close", ctx.construct(q, g.node(n).ast),
+                      "pending TLS alerts are not flushed before the transport is closed", witness=g.describe(w))
+        for n in self_assigns(g, "_reason"):
+            ctx.check(implied(g, n, [{"self._reason": None}], [{"self._reason": NONNULL}]), "finished/first-reason-wins", ctx.construct(q, g.node(n).ast),
+                      "a later failure overwrites the first recorded reason")
+
+        # wake-ups of a postponed shutdown
+    with ctx.section("TLSMemoryBIOProtocol._unbufferPendingWrites"):
+        # ---- sec: TLSMemoryBIOProtocol._unbufferPendingWrites
+        f = ctx.func(T, "TLSMemoryBIOProtocol._unbufferPendingWrites")
+        g = ctx.cfg(f)
+        q = QP + "_unbufferPendingWrites"
+        loops = [n for n in g.nodes if n.kind == "for" and g.reachable(n.id)]
+        ctx.need(len(loops) == 1, "the re-write loop of _unbufferPendingWrites")
+        head = loops[0]
+        tail = succ_of(g, head.id, "done")
+        st = call_nodes(g, "self._shutdownTLS")
+        rs = call_nodes(g, "self._producer.resumeProducing")
+        for facts, lab, must, never in (
+                ({"self._appSendBuffer": (), "self._producer": None, "self.disconnecting": True}, "drained, no producer, disconnecting", st, rs),
+                ({"self._appSendBuffer": (), "self._producer": NONNULL, "self.disconnecting": True}, "drained, producer registered", rs, st),
+                ({"self._appSendBuffer": (), "self._producer": None, "self.disconnecting": False}, "drained, not disconnecting", [], st + rs),
+                ({"self._appSendBuffer": NONNULL, "self._producer": NONNULL, "self.disconnecting": True}, "re-buffered", [], st + rs)):
+            c = q + f" | <{lab}>"
+            R = reach_under(g, facts, srcs=tail)
+            if must is not None and lab.startswith("drained") and "not disconnecting" not in lab:
+                w = must_pass_under(g, facts, must, srcs=tail) if must else tail
+                ctx.check(bool(must) and w is None, "unbuffer/continuation", c,
+                          "after the buffered writes went out, the postponed action (TLS shutdown requested by loseConnection / resuming the paused "
+                          "producer) is not taken: the connection never closes / the producer stays paused", witness=g.describe(w))
+            ctx.check(not (R & set(never)), "unbuffer/continuation", c + " | not",
+                      "shutdown / resume happens although writes are still buffered, a producer is registered, or no close was requested",
+                      witness=g.describe(path_under(g, facts, set(never), srcs=tail)) if R & set(never) else "")
+        # swap before re-writing
+        it = head.ast.iter
+        rew = [n for n, c in calls_with(g, "self._write") if c.args and src(c.args[0]) == src(head.ast.target)]
+        ctx.check(bool(rew), "unbuffer/rewrites", q, "the pending writes are not passed to _write again")
+        resets = self_assigns(g, "_appSendBuffer", lambda v: isinstance(v, (ast.List, ast.Tuple)) and not v.elts)
+        ok = isinstance(it, ast.Name)
+        if ok:
+            caps = []
+            for x in g.nodes:
+                if x.kind == "stmt" and g.reachable(x.id) and isinstance(x.ast, ast.Assign):
+                    tg, v = x.ast.targets[0], x.ast.value
+                    if isinstance(tg, ast.Name) and tg.id == it.id and src(v) == "self._appSendBuffer":
+                        caps.append(x.id)
+                    elif isinstance(tg, ast.Tuple) and isinstance(v, ast.Tuple) and len(tg.elts) == len(v.elts):
+                        for t_, v_ in zip(tg.elts, v.elts):
+                            if isinstance(t_, ast.Name) and t_.id == it.id and src(v_) == "self._appSendBuffer":
+                                caps.append(x.id)
+            ok = bool(caps) and bool(resets) and g.must_precede(caps, [head.id]) is None and g.must_precede(resets, [head.id]) is None \
+                and all(g.path([r], caps, strict=True, edge_ok=_nx) is None for r in resets if r not in caps)
+        ctx.check(ok, "unbuffer/swap-before-rewrite", ctx.construct(q, f"for {src(head.ast.target)} in {src(it)}:"),
+                  "the pending list is not detached (captured in a local and _appSendBuffer reset) before its elements are re-written: a write that "
+                  "is re-buffered during the loop is appended to the list being iterated (endless loop / duplicated bytes) or wiped afterwards")
+        acc = class_accesses(mod, cls, {"_appSendBuffer"}, {"self"})
+        for a in acc:
+            okk = (a.func.endswith("._bufferedWrite") and a.kind == "append") or (a.func.endswith(".makeConnection") and a.kind in ("rebind-empty", "assign")) \
+                or (a.func.endswith("._unbufferPendingWrites") and a.kind in ("assign", "rebind-empty"))
+            ctx.check(okk, "buffer/fifo-who-may-write", ctx.construct(Q + a.func, a.node),
+                      f"_appSendBuffer is modified by '{a.kind}' here: pending application writes must only be appended (FIFO) by _bufferedWrite "
+                      "and detached by _unbufferPendingWrites")
+        ctx.floor("buffer/fifo-who-may-write", len(acc), 3)
+
+    with ctx.section("TLSMemoryBIOProtocol.unregisterProducer"):
+        # ---- sec: TLSMemoryBIOProtocol.unregisterProducer
+        f = ctx.func(T, "TLSMemoryBIOProtocol.unregisterProducer")
+        g = ctx.cfg(f)
+        q = QP + "unregisterProducer"
+        st = call_nodes(g, "self._shutdownTLS")
+        clr = self_assigns(g, "_producer", lambda v: const_value_is(v, lambda x: x is None))
+        tun = call_nodes(g, "self.transport.unregisterProducer")
+        base_f = {"self._producer": NONNULL, "isinstance(self._producer._producer, _PullToPush)": False}
+        for extra, lab, want in (({"self.disconnecting": True, "self._appSendBuffer": ()}, "disconnecting, nothing buffered", True),
+                                 ({"self.disconnecting": True, "self._appSendBuffer": NONNULL}, "disconnecting, writes buffered", False),
+                                 ({"self.disconnecting": False, "self._appSendBuffer": ()}, "not disconnecting", False)):
+            facts = dict(base_f, **extra)
+            c = q + f" | <{lab}>"
+            if want:
+                w = must_pass_under(g, facts, st + call_nodes(g, "self.abortConnection"))
+                ctx.check(w is None, "unregister/resumes-postponed-shutdown", c,
+                          "loseConnection() was postponed because of the producer; when it unregisters neither the TLS shutdown nor an abort is started: the connection never closes",
+                          witness=g.describe(w))
+            else:
+                ctx.check(not (reach_under(g, facts) & set(st)), "unregister/resumes-postponed-shutdown", c + " | not", "TLS shutdown started although not due")
+            w = must_pass_under(g, facts, clr)
+            ctx.check(w is None, "unregister/clears-producer", c, "the producer reference is kept after unregisterProducer", witness=g.describe(w))
+            w = must_pass_under(g, facts, tun)
+            ctx.check(w is None, "unregister/transport-unregistered", c, "the membrane is left registered with the underlying transport", witness=g.describe(w))
+        for s in st:
+            ctx.check(g.must_precede(clr, [s]) is None, "unregister/clears-producer", ctx.construct(q, g.node(s).ast) + " | before shutdown", "shutdown starts while _producer is still set")
+
+    with ctx.section("TLSMemoryBIOProtocol.loseConnection"):
+        # ---- sec: TLSMemoryBIOProtocol.loseConnection
+        f = ctx.func(T, "TLSMemoryBIOProtocol.loseConnection")
+        g = ctx.cfg(f)
+        q = QP + "loseConnection"
+        st = call_nodes(g, "self._shutdownTLS")
+        ab = call_nodes(g, "self.abortConnection")
+        dset = self_assigns(g, "disconnecting", lambda v: const_value_is(v, lambda x: x is True))
+        live = {"self.disconnecting": False, "self.connected": True}
+        for extra, lab, shut_now in (({"self._handshakeDone": True, "self._appSendBuffer": (), "self._producer": None}, "idle", True),
+                                     ({"self._handshakeDone": True, "self._appSendBuffer": NONNULL, "self._producer": None}, "writes buffered", False),
+                                     ({"self._handshakeDone": False, "self._appSendBuffer": NONNULL, "self._producer": None}, "handshake pending, writes buffered", False),
+                                     ({"self._handshakeDone": True, "self._appSendBuffer": (), "self._producer": NONNULL}, "producer registered", False)):
+            facts = dict(live, **extra)
+            c = q + f" | <{lab}>"
+            w = must_pass_under(g, facts, dset)
+            ctx.check(w is None, "lose/records-request", c, "loseConnection() does not set disconnecting: the postponed shutdown is never picked up", witness=g.describe(w))
+            R = reach_under(g, facts)
+            if shut_now:
+                w = must_pass_under(g, facts, st)
+                ctx.check(w is None, "lose/shuts-down-when-idle", c, "nothing is pending but the TLS shutdown is not started", witness=g.describe(w))
+            else:
+                ctx.check(not (R & set(st)) and not (R & set(ab)), "lose/postponed-while-pending", c,
+                          "the TLS shutdown / abort is started although application writes are buffered or a producer is registered: bytes written "
+                          "before loseConnection() are lost", witness=g.describe(path_under(g, facts, set(st) | set(ab))))
+        R = reach_under(g, {"self.disconnecting": False, "self.connected": False})
+        ctx.check(not (R & (set(st) | set(ab) | set(dset))), "lose/only-while-connected", q + " | <not connected>", "loseConnection() acts on a connection that is already gone")
+
+        # ---- (c) the write path --------------------------------------------------------------------------------------------------------
+    with ctx.section("TLSMemoryBIOProtocol._write"):
+        # ---- sec: TLSMemoryBIOProtocol._write
+        f = ctx.func(T, "TLSMemoryBIOProtocol._write")
+        g = ctx.cfg(f)
+        q = QP + "_write"
+        bparam = f.args.args[1].arg
+        snd = calls_with(g, "self._tlsConnection.send")
+        ctx.need(len(snd) == 1, "single self._tlsConnection.send() in _write")
+        sn, scall = snd[0]
+        sst = g.node(sn).ast
+        sentv = sst.targets[0].id if isinstance(sst, ast.Assign) and isinstance(sst.targets[0], ast.Name) else None
+        chunk = local_def(f, scall.args[0]) if scall.args else None
+        sp = slice_parts(chunk) if chunk is not None else None
+        posv = src(sp[1]) if sp and sp[1] is not None else None
+        ok = bool(sp) and src(sp[0]) == bparam and posv is not None and sp[2] is not None and posv in src(sp[2])
+        ctx.check(ok, "write/chunk-from-position", ctx.construct(q, scall), "the chunk handed to OpenSSL does not start at the position reached so far")
+        adv = [x.id for x in g.nodes if x.kind == "stmt" and g.reachable(x.id) and isinstance(x.ast, ast.AugAssign) and posv and src(x.ast.target) == posv]
+        ctx.check(len(adv) == 1 and isinstance(g.node(adv[0]).ast.op, ast.Add) and src(g.node(adv[0]).ast.value) == sentv and g.must_precede([sn], adv) is None,
+                  "write/advance-by-accepted", q + " | <position>", "the position does not advance by exactly what send() accepted (bytes skipped or sent twice)")
+        fsb = call_nodes(g, "self._flushSendBIO")
+        w = g.must_pass(succ_of(g, sn, None), fsb, to=[sn, g.exit]) if succ_of(g, sn, None) else None
+        ctx.check(bool(fsb) and w is None, "write/ciphertext-flushed", q + " | <after send>", "encrypted bytes are left in the send BIO after a successful send()",
+                  witness=g.describe(w))
+        bw = calls_with(g, "self._bufferedWrite")
+        for h in succ_of(g, sn, "exc"):
+            if g.node(h).kind != "handler":
+                continue
+            names = handler_names(g.node(h).ast)
+            hc = ctx.construct(q, f"except {', '.join(names)}:")
+            back = g.path([h], [sn], strict=True, edge_ok=_nx)
+            ctx.check(back is None, "write/handler-leaves-loop", hc, "after a failed send() the loop tries again with the same data", witness=g.describe(back))
+            if "WantReadError" in names:
+                mine = [(n, c) for n, c in bw if g.dominates(h, n)]
+                w = g.must_pass([h], [n for n, _ in mine])
+                ctx.check(bool(mine) and w is None, "write/wantread-rebuffers", hc, "data OpenSSL cannot take yet is dropped instead of being buffered", witness=g.describe(w))
+                for n, c in mine:
+                    a = slice_parts(c.args[0]) if c.args else None
+                    ctx.check(bool(a) and src(a[0]) == bparam and a[1] is not None and src(a[1]) == posv and a[2] is None, "write/wantread-rebuffers-unsent-suffix",
+                              ctx.construct(q, c), "what is re-buffered is not exactly the unsent suffix bytes[alreadySent:] (a prefix is duplicated or the tail is lost)")
+            else:
+                fin = call_nodes(g, "self._tlsShutdownFinished")
+                w = g.must_pass([h], [n for n in fin if g.dominates(h, n)])
+                ctx.check(w is None and bool(fin), "write/error-closes", hc, "a TLS error while writing does not tear the connection down", witness=g.describe(w))
+        heads = [x.id for x in g.nodes if x.kind == "join" and isinstance(x.ast, ast.While) and g.reachable(x.id)]
+        if heads and posv:
+            for pos, ln, enter in ((4, 5, True), (5, 5, False), (0, 0, False)):
+                R = reach_under(g, {posv: pos, f"len({bparam})": ln}, srcs=heads)
+                ctx.check((sn in R) == enter, "write/loop-boundary", q + f" | <position {pos} of {ln}>",
+                          "send() is not attempted although bytes remain" if enter else "send() is attempted with nothing left to send (endless loop on empty chunks)")
+        R = reach_under(g, {"self._lostTLSConnection": True})
+        ctx.check(sn not in R, "write/not-after-lost", q + " | <TLS connection lost>", "bytes are handed to OpenSSL after the TLS connection was lost")
+        w = must_pass_under(g, {"self._lostTLSConnection": False, f"len({bparam})": 3}, [sn])
+        ctx.check(w is None, "write/reaches-openssl", q + " | <connected>", "_write returns without handing the bytes to OpenSSL", witness=g.describe(w))
+
+    with ctx.section("TLSMemoryBIOProtocol.write"):
+        # ---- sec: TLSMemoryBIOProtocol.write
+        f = ctx.func(T, "TLSMemoryBIOProtocol.write")
+        g = ctx.cfg(f)
+        q = QP + "write"
+        bparam = f.args.args[1].arg
+        wr = [n for n, c in calls_with(g, "self._write") if c.args and src(c.args[0]) == bparam]
+        for facts, lab, sent in (({"self.disconnecting": False}, "not disconnecting", True), ({"self.disconnecting": True, "self._producer": NONNULL}, "disconnecting, producer registered", True),
+                                 ({"self.disconnecting": True, "self._producer": None}, "disconnecting, no producer", False)):
+            c = q + f" | <{lab}>"
+            if sent:
+                w = must_pass_under(g, facts, wr)
+                ctx.check(w is None, "write/dropped-only-after-close", c, "written bytes are dropped although the connection is not closing (or its producer is still registered)",
+                          witness=g.describe(w))
+            else:
+                ctx.check(not (reach_under(g, facts) & set(wr)), "write/dropped-only-after-close", c, "bytes written after loseConnection() are still sent")
+    with ctx.section("TLSMemoryBIOProtocol.writeSequence"):
+        # ---- sec: TLSMemoryBIOProtocol.writeSequence
+        f = ctx.func(T, "TLSMemoryBIOProtocol.writeSequence")
+        ip = f.args.args[1].arg
+        ok = any(call_name(c) == "self.write" and c.args and src(c.args[0]) == f"b''.join({ip})" for c in walk_local(f) if isinstance(c, ast.Call))
+        ctx.check(ok, "write/sequence-routes-through-write", QP + "writeSequence", "writeSequence does not go through write(b''.join(iovec)) (disconnect / ordering rules bypassed)")
+    with ctx.section("TLSMemoryBIOProtocol._bufferedWrite"):
+        # ---- sec: TLSMemoryBIOProtocol._bufferedWrite
+        f = ctx.func(T, "TLSMemoryBIOProtocol._bufferedWrite")
+        g = ctx.cfg(f)
+        q = QP + "_bufferedWrite"
+        ps = call_nodes(g, "self._producer.pauseProducing")
+        w = must_pass_under(g, {"self._producer": NONNULL}, ps)
+        ctx.check(w is None, "backpressure/pause-on-buffering", q + " | <producer registered>", "a producer is not paused when its data has to be buffered", witness=g.describe(w))
+        ctx.check(not (reach_under(g, {"self._producer": None}) & set(ps)), "backpressure/pause-on-buffering", q + " | <no producer>", "pauseProducing on None")
+    with ctx.section("TLSMemoryBIOProtocol._flushSendBIO"):
+        # ---- sec: TLSMemoryBIOProtocol._flushSendBIO
+        f = ctx.func(T, "TLSMemoryBIOProtocol._flushSendBIO")
+        g = ctx.cfg(f)
+        q = QP + "_flushSendBIO"
+        br = calls_with(g, "self._tlsConnection.bio_read")
+        tw = calls_with(g, "self.transport.write")
+        ok = len(br) == 1 and len(tw) == 1 and isinstance(g.node(br[0][0]).ast, ast.Assign) and tw[0][1].args and \
+            src(tw[0][1].args[0]) == src(g.node(br[0][0]).ast.targets[0]) and g.must_pass([br[0][0]], [tw[0][0]]) is None
+        ctx.check(ok, "write/ciphertext-to-transport", q, "what bio_read() returned is not written to the underlying transport")
+
+        # buffering subclass + aggregator
+    with ctx.section("BufferingTLSTransport.loseConnection"):
+        # ---- sec: BufferingTLSTransport.loseConnection
+        f = ctx.func(T, "BufferingTLSTransport.loseConnection")
+        g = ctx.cfg(f)
+        q = Q + "BufferingTLSTransport.loseConnection"
+        fl = call_nodes(g, "self._aggregator.flush")
+        sup = [n for n, c in calls_with(g, ".loseConnection") if src(c.func) in ("super().loseConnection", "TLSMemoryBIOProtocol.loseConnection")]
+        ctx.check(bool(sup) and g.must_pass([g.entry], sup) is None, "aggregate/lose-forwards", q, "loseConnection() is not forwarded to TLSMemoryBIOProtocol")
+        for s in sup:
+            w = g.must_precede(fl, [s])
+            ctx.check(bool(fl) and w is None, "aggregate/flushed-before-lose", ctx.construct(q, g.node(s).ast),
+                      "small writes still held by the aggregator are not flushed before loseConnection(): bytes written before the close are dropped",
+                      witness=g.describe(w))
+    with ctx.section("BufferingTLSTransport.writeSequence"):
+        # ---- sec: BufferingTLSTransport.writeSequence
+        f = ctx.func(T, "BufferingTLSTransport.writeSequence")
+        ip = f.args.args[1].arg
+        ok = any(call_name(c) in ("self._aggregator.write", "self.write") and c.args and src(c.args[0]) == f"b''.join({ip})" for c in walk_local(f) if isinstance(c, ast.Call))
+        ctx.check(ok, "aggregate/sequence-routes-through-aggregator", Q + "BufferingTLSTransport.writeSequence",
+                  "writeSequence bypasses the aggregator: its bytes overtake earlier small writes still waiting there")
+    with ctx.section("BufferingTLSTransport.__init__"):
+        # ---- sec: BufferingTLSTransport.__init__
+        f = ctx.func(T, "BufferingTLSTransport.__init__")
+        srcs_ = [src(st) for st in walk_local(f) if isinstance(st, ast.Assign)]
+        ctx.check("self.write = self._aggregator.write" in srcs_ and any(s.startswith("self._aggregator = _AggregateSmallWrites(") for s in srcs_),
+                  "aggregate/write-routes-through-aggregator", Q + "BufferingTLSTransport.__init__", "write is not bound to the aggregator")
+
+    with ctx.section("_AggregateSmallWrites.write"):
+        # ---- sec: _AggregateSmallWrites.write
+        f = ctx.func(T, "_AggregateSmallWrites.write")
+        g = ctx.cfg(f)
+        q = A + "write"
+        dp = f.args.args[1].arg
+        ap = [n for n, c in calls_with(g, "self._buffer.append") if c.args and src(c.args[0]) == dp]
+        dec = [x.id for x in g.nodes if x.kind == "stmt" and g.reachable(x.id) and isinstance(x.ast, ast.AugAssign) and src(x.ast.target) == "self._bufferLeft"
+               and isinstance(x.ast.op, ast.Sub) and src(x.ast.value) == f"len({dp})"]
+        ctx.check(bool(ap) and g.must_pass([g.entry], ap) is None, "aggregate/append", q, "the data is not appended to the aggregation buffer on every path")
+        ctx.check(bool(dec) and g.must_pass([g.entry], dec) is None, "aggregate/size-coupled", q, "_bufferLeft is not reduced by len(data) together with the append")
+        fl = call_nodes(g, "self.flush")
+        cl = [(n, c) for n, c in calls_with(g, "self._clock.callLater")]
+        after = [s for d in dec for s in succ_of(g, d, None)]
+        w = must_pass_under(g, {"self._bufferLeft": -1}, fl, srcs=after)
+        ctx.check(w is None, "aggregate/flush-when-full", q + " | <buffer over limit>", "an over-full aggregation buffer is not flushed at once", witness=g.describe(w))
+        facts = {"self._bufferLeft": 0, "self._scheduled": None}
+        w = must_pass_under(g, facts, [n for n, _ in cl], srcs=after)
+        ctx.check(w is None, "aggregate/flush-scheduled", q + " | <first small write>",
+                  "a small write is buffered but no flush is scheduled: the bytes are never sent unless more data follows", witness=g.describe(w))
+        for n, c in cl:
+            st_ = g.node(n).ast
+            ok = isinstance(st_, ast.Assign) and src(st_.targets[0]) == "self._scheduled" and len(c.args) == 2 and src(c.args[1]) == "self._scheduledFlush"
+            ctx.check(ok, "aggregate/flush-scheduled", ctx.construct(q, c), "the scheduled call is not remembered in _scheduled / does not run _scheduledFlush")
+        R = reach_under(g, {"self._bufferLeft": 0, "self._scheduled": NONNULL}, srcs=after)
+        ctx.check(not (R & {n for n, _ in cl}), "aggregate/one-timer", q + " | <flush already scheduled>", "a second flush timer is started while one is pending")
+    with ctx.section("_AggregateSmallWrites._scheduledFlush"):
+        # ---- sec: _AggregateSmallWrites._scheduledFlush
+        f = ctx.func(T, "_AggregateSmallWrites._scheduledFlush")
+        g = ctx.cfg(f)
+        q = A + "_scheduledFlush"
+        rs = self_assigns(g, "_scheduled", lambda v: const_value_is(v, lambda x: x is None))
+        fl = call_nodes(g, "self.flush")
+        ctx.check(bool(rs) and g.must_pass([g.entry], rs) is None, "aggregate/timer-rearmed", q,
+                  "_scheduled is not cleared when the timer fires: every later small write believes a flush is pending and is never sent")
+        ctx.check(bool(fl) and g.must_pass([g.entry], fl) is None, "aggregate/timer-flushes", q, "the timer does not flush the buffer")
+    with ctx.section("_AggregateSmallWrites.flush"):
+        # ---- sec: _AggregateSmallWrites.flush
+        f = ctx.func(T, "_AggregateSmallWrites.flush")
+        g = ctx.cfg(f)
+        q = A + "flush"
+        wr = [(n, c) for n, c in calls_with(g, "self._write")]
+        facts = {"self._buffer": NONNULL}
+        w = must_pass_under(g, facts, [n for n, _ in wr])
+        ctx.check(w is None, "aggregate/flush-writes", q + " | <non-empty>", "flush() does not write the aggregated bytes", witness=g.describe(w))
+        for n, c in wr:
+            ctx.check(len(c.args) == 1 and src(c.args[0]) == "b''.join(self._buffer)", "aggregate/flush-writes", ctx.construct(q, c), "flush() does not write the buffered pieces joined in order")
+        acc = [a for a in class_accesses(mod, ctx.cls(T, "_AggregateSmallWrites"), {"_buffer"}, {"self"}) if a.func.endswith(".flush")]
+        clears = [i for a in acc if a.kind in ("clear", "rebind-empty", "del-prefix") for i in g.ids_of(a.node)]
+        w = must_pass_under(g, facts, clears)
+        ctx.check(w is None, "aggregate/flush-empties", q + " | <non-empty>", "the aggregation buffer is not emptied by flush(): the same bytes are written again", witness=g.describe(w))
+        rl = self_assigns(g, "_bufferLeft", lambda v: src(v) == "self.MAX_BUFFER_SIZE")
+        w = must_pass_under(g, facts, rl)
+        ctx.check(w is None, "aggregate/size-coupled", q + " | <non-empty>", "_bufferLeft is not reset when the buffer is emptied", witness=g.describe(w))
+
+        # ---- (d) dataReceived, handshake, producers --------------------------------------------------------------------------------------
+    with ctx.section("TLSMemoryBIOProtocol.dataReceived"):
+        # ---- sec: TLSMemoryBIOProtocol.dataReceived
+        f = ctx.func(T, "TLSMemoryBIOProtocol.dataReceived")
+        g = ctx.cfg(f)
+        q = QP + "dataReceived"
+        bparam = f.args.args[1].arg
+        bw = [n for n, c in calls_with(g, "self._tlsConnection.bio_write") if c.args and src(c.args[0]) == bparam]
+        hs = call_nodes(g, "self._checkHandshakeStatus")
+        ub = call_nodes(g, "self._unbufferPendingWrites")
+        fr = call_nodes(g, "self._flushReceiveBIO")
+        ctx.check(bool(bw) and g.must_pass([g.entry], bw) is None and all(g.must_precede(bw, [x]) is None for x in hs + ub + fr), "received/fed-to-openssl-first", q,
+                  "the received bytes are not handed to OpenSSL before the handshake / receive processing")
+        w = must_pass_under(g, {"self._handshakeDone": True, "self._appSendBuffer": NONNULL}, ub, to=fr + [g.exit])
+        ctx.check(w is None, "received/unblocks-buffered-writes", q + " | <handshake done, writes buffered>",
+                  "incoming data does not retry the application writes that were waiting for it", witness=g.describe(w))
+        w = must_pass_under(g, {"self._handshakeDone": True, "self._appSendBuffer": ()}, fr)
+        ctx.check(w is None, "received/drains-receive-bio", q + " | <handshake done>", "application data made available by the new bytes is not delivered", witness=g.describe(w))
+        for h in hs:
+            nxt = succ_of(g, h, None)
+            w = must_pass_under(g, {"self._handshakeDone": True, "self._appSendBuffer": ()}, fr, srcs=nxt)
+            ctx.check(w is None, "received/handshake-retested", ctx.construct(q, g.node(h).ast),
+                      "when the handshake completes with this very segment, the application data that followed it in the same segment is not processed "
+                      "until more data arrives", witness=g.describe(w))
+            R = reach_under(g, {"self._handshakeDone": False, "self._appSendBuffer": NONNULL}, srcs=nxt)
+            ctx.check(not (R & set(ub)), "received/no-unbuffer-before-handshake", ctx.construct(q, g.node(h).ast) + " | pending",
+                      "buffered writes are retried although the handshake is still incomplete")
+            ctx.check(implied(g, h, [{"self._handshakeDone": False}], [{"self._handshakeDone": True}]), "received/handshake-only-while-pending", ctx.construct(q, g.node(h).ast) + " | once",
+                      "do_handshake() is driven again after the handshake completed")
+    with ctx.section("TLSMemoryBIOProtocol._checkHandshakeStatus"):
+        # ---- sec: TLSMemoryBIOProtocol._checkHandshakeStatus
+        f = ctx.func(T, "TLSMemoryBIOProtocol._checkHandshakeStatus")
+        g = ctx.cfg(f)
+        q = QP + "_checkHandshakeStatus"
+        dh = call_nodes(g, "self._tlsConnection.do_handshake")
+        ctx.need(len(dh) == 1, "do_handshake() in _checkHandshakeStatus")
+        done = self_assigns(g, "_handshakeDone", lambda v: const_value_is(v, lambda x: x is True))
+        w = g.must_pass([dh[0]], done)
+        ctx.check(bool(done) and w is None, "handshake/completion-recorded", q, "a successful do_handshake() is not recorded in _handshakeDone", witness=g.describe(w))
+        for d in done:
+            ctx.check(g.must_precede(dh, [d]) is None and not [h for h in range(len(g.nodes)) if g.node(h).kind == "handler" and g.dominates(h, d)],
+                      "handshake/completion-recorded", ctx.construct(q, g.node(d).ast), "_handshakeDone is set on a path where do_handshake() did not succeed")
+        for h in succ_of(g, dh[0], "exc"):
+            if g.node(h).kind != "handler":
+                continue
+            names = handler_names(g.node(h).ast)
+            if "WantReadError" in names:
+                w = g.must_pass([h], call_nodes(g, "self._flushSendBIO"))
+                ctx.check(w is None, "handshake/progress-flushed", ctx.construct(q, "except WantReadError:"), "handshake bytes produced so far are not flushed to the peer: the handshake stalls",
+                          witness=g.describe(w))
+            else:
+                w = g.must_pass([h], call_nodes(g, "self._tlsShutdownFinished"))
+                ctx.check(w is None, "handshake/failure-closes", ctx.construct(q, f"except {', '.join(names)}:"), "a failed handshake does not close the connection", witness=g.describe(w))
+        R = reach_under(g, {"self._aborted": True})
+        ctx.check(not (R & set(dh)), "handshake/not-after-abort", q + " | <aborted>", "the handshake is driven on an aborted connection")
+
+    with ctx.section("TLSMemoryBIOProtocol.registerProducer"):
+        # ---- sec: TLSMemoryBIOProtocol.registerProducer
+        f = ctx.func(T, "TLSMemoryBIOProtocol.registerProducer")
+        g = ctx.cfg(f)
+        q = QP + "registerProducer"
+        pp = f.args.args[1].arg
+        store = self_assigns(g, "_producer")
+        treg = [(n, c) for n, c in calls_with(g, "self.transport.registerProducer")]
+        R = reach_under(g, {"self._lostTLSConnection": True})
+        w = must_pass_under(g, {"self._lostTLSConnection": True}, call_nodes(g, f"{pp}.stopProducing"))
+        ctx.check(w is None and not (R & set(store)) and not (R & {n for n, _ in treg}), "producer/stopped-when-lost", q + " | <TLS connection lost>",
+                  "a producer registered after the connection was lost is not stopped (or is registered anyway)", witness=g.describe(w))
+        for st_flag in (True, False):
+            facts = {"self._lostTLSConnection": False, f.args.args[2].arg: st_flag}
+            w1 = must_pass_under(g, facts, store)
+            w2 = must_pass_under(g, facts, [n for n, _ in treg])
+            ctx.check(w1 is None and w2 is None, "producer/registered-both-levels", q + f" | <streaming={st_flag}>",
+                      "the producer is not both remembered in _producer and registered with the transport", witness=g.describe(w1 or w2))
+        for n, c in treg:
+            ok = len(c.args) == 2 and const_value_is(c.args[1], lambda v: v is True) and any(src(g.node(s).ast.value) == src(c.args[0]) for s in store)
+            ctx.check(ok, "producer/registered-both-levels", ctx.construct(q, c), "the transport is not given the same (membrane-wrapped, streaming) producer that _producer holds")
+        mem = [x.id for x in g.nodes if x.kind == "stmt" and isinstance(x.ast, ast.Assign) and isinstance(x.ast.value, ast.Call) and call_name(x.ast.value) == "_ProducerMembrane"]
+        ctx.check(bool(mem) and all(g.must_precede(mem, [s]) is None for s in store), "producer/membrane", q, "the producer is stored without the pause/resume membrane")
+        for name, flagval, callee in (("pauseProducing", True, "self._producer.pauseProducing"), ("resumeProducing", False, "self._producer.resumeProducing")):
+            f = ctx.func(T, f"_ProducerMembrane.{name}")
+            g = ctx.cfg(f)
+            q = Q + f"_ProducerMembrane.{name}"
+            cs = call_nodes(g, callee)
+            fl = self_assigns(g, "_producerPaused", lambda v, fv=flagval: const_value_is(v, lambda x: x is fv))
+            w = must_pass_under(g, {"self._producerPaused": not flagval}, cs)
+            ctx.check(w is None, "membrane/forwards-change", q + " | <state changes>", f"{name}() is not forwarded to the producer when its state has to change", witness=g.describe(w))
+            R = reach_under(g, {"self._producerPaused": flagval})
+            ctx.check(not (R & set(cs)), "membrane/idempotent", q + " | <no change>", f"{name}() is forwarded again although the producer is already in that state")
+            ctx.check(bool(fl) and all(g.must_precede(fl, [c]) is None for c in cs), "membrane/flag-before-callout", q,
+                      "the membrane flag is not updated before the producer call-out (a producer that writes from resumeProducing and gets paused again is left inconsistent)")
+    with ctx.section("TLSMemoryBIOProtocol.abortConnection"):
+        # ---- sec: TLSMemoryBIOProtocol.abortConnection
+        f = ctx.func(T, "TLSMemoryBIOProtocol.abortConnection")
+        g = ctx.cfg(f)
+        q = QP + "abortConnection"
+        need = {"_aborted = True": self_assigns(g, "_aborted", lambda v: const_value_is(v, lambda x: x is True)),
+                "transport.abortConnection()": call_nodes(g, "self.transport.abortConnection")}
+        for what, ns in need.items():
+            ctx.check(bool(ns) and g.must_pass([g.entry], ns) is None, "abort/complete", q + f" | {what}", f"abortConnection() does not always perform {what}")
+    with ctx.section("liveness of a postponed close"):
+        _liveness(ctx)
 
 
 _UB = ("        pendingWrites, self._appSendBuffer = self._appSendBuffer, []\n        for eachWrite in pendingWrites:\n            self._write(eachWrite)\n")
@@ -632,6 +830,17 @@ MUTANTS = [
            expect_rule="data/loop-terminates"),
     Mutant("data-delivered-after-abort", T, "                if not self._aborted:\n                    ProtocolWrapper.dataReceived(self, bytes)\n", "                ProtocolWrapper.dataReceived(self, bytes)\n",
            expect_rule="data/not-after-abort"),
+    Mutant("pre-handshake-close-waits-for-producer", T, "        if not self._handshakeDone and not self._appSendBuffer:\n            self.abortConnection()\n",
+           "        if not self._handshakeDone and not self._appSendBuffer:\n            if self._producer is None:\n                self.abortConnection()\n",
+           expect_rule="liveness/postponed-close-is-picked-up"),
+    Mutant("unregister-recheck-dropped-liveness", T, "        self.transport.unregisterProducer()\n        if self.disconnecting and not self._appSendBuffer:\n            self._shutdownTLS()\n",
+           "        self.transport.unregisterProducer()\n        if self.disconnecting and not self._appSendBuffer and self._lostTLSConnection:\n            self._shutdownTLS()\n",
+           expect_rule="liveness/postponed-close-is-picked-up"),
+    Mutant("drain-recheck-dropped-liveness", T, "        if self.disconnecting:\n            # Finally, if we have no further buffered data, no producer wants\n",
+           "        if self.disconnecting and not self._handshakeDone:\n            # Finally, if we have no further buffered data, no producer wants\n",
+           expect_rule="liveness/postponed-close-is-picked-up"),
+    Mutant("handshake-completion-skips-unbuffer", T, "        if self._appSendBuffer:\n            self._unbufferPendingWrites()\n\n        # Since", "        # Since",
+           expect_rule="liveness/postponed-close-is-picked-up"),
     Mutant("buffering-writesequence-bypasses-aggregator", T, "        self._aggregator.write(b\"\".join(sequence))", "        super().write(b\"\".join(sequence))",
            expect_rule="aggregate/sequence-routes-through-aggregator"),
 ]
@@ -645,5 +854,13 @@ SILENT = [
            "        if not self.disconnecting or self._producer is not None:\n            self._write(bytes)"),
     Silent("write-locals-renamed", T, "                self._bufferedWrite(bytes[alreadySent:])\n                break\n", "                rest = bytes[alreadySent:]\n                self._bufferedWrite(bytes[alreadySent:])\n                break\n"),
     Silent("shutdown-success-test-respelled", T, "        self._flushSendBIO()\n        if shutdownSuccess:\n", "        self._flushSendBIO()\n        if shutdownSuccess is not False and shutdownSuccess:\n"),
+    Silent("producer-wait-with-recheck-at-handshake-completion", T, "        if not self._handshakeDone and not self._appSendBuffer:\n            self.abortConnection()\n",
+           "        if not self._handshakeDone and not self._appSendBuffer and self._producer is None:\n            self.abortConnection()\n",
+           more=[(T, "        if self._appSendBuffer:\n            self._unbufferPendingWrites()\n\n        # Since",
+                  "        if self._appSendBuffer or self.disconnecting:\n            self._unbufferPendingWrites()\n\n        # Since")]),
+    Silent("producer-wait-with-abort-at-unregister", T, "        if not self._handshakeDone and not self._appSendBuffer:\n            self.abortConnection()\n",
+           "        if not self._handshakeDone and not self._appSendBuffer and self._producer is None:\n            self.abortConnection()\n",
+           more=[(T, "        if self.disconnecting and not self._appSendBuffer:\n            self._shutdownTLS()\n\n\n@implementer",
+                  "        if self.disconnecting and not self._appSendBuffer:\n            if self._handshakeDone:\n                self._shutdownTLS()\n            else:\n                self.abortConnection()\n\n\n@implementer")]),
     Silent("aggregator-clear-spelled", T, "            del self._buffer[:]\n", "            self._buffer.clear()\n"),
 ]
